@@ -1,13 +1,1680 @@
-(* Proofs that encode writes exactly size_of bytes or reports a short buffer (C16, C03 size part). *)
+(* Proofs that encode writes exactly size_of bytes or reports a short buffer (C16, C03 size part).
+   Structure: (1-3) list/window lemmas and the notion of an exact writer; (4-6) flags, sizes, tags;
+   (7) a compatibility predicate between a compiled codec and a value ([cok]/[vok]) and the goal [G];
+   (8) leaves; (9) the loops of the model restated with named steps (convertible to the model's local
+   fixes); (10-12) positional steps, their sequencing, and the struct/slice/map loops; (13) [G] for every
+   compatible pair by induction on the codec; (14) type_ok/numbers_ok/wf_val give compatible pairs;
+   (15) the statements of Spec.v. *)
 From Verif Require Import Base.GoInt Proto.Ext Generated.ProtoGen Proto.Model Proto.PrimSpec Proto.PrimProofs Proto.Spec.
 From Coq Require Import ZifyBool.
 Open Scope Z_scope.
 
+(* ================= 1. lists and lengths ================= *)
+Lemma len_nonneg {A} (l : list A) : 0 <= len l.
+Proof. unfold len; lia. Qed.
+Lemma len_app {A} (a b : list A) : len (a ++ b) = len a + len b.
+Proof. unfold len; rewrite app_length; lia. Qed.
+Lemma len_nil {A} : len (@nil A) = 0.
+Proof. reflexivity. Qed.
+Lemma len_cons {A} (x : A) l : len (x :: l) = 1 + len l.
+Proof. unfold len; cbn [length]; lia. Qed.
+Lemma to_nat_len {A} (l : list A) : Z.to_nat (len l) = length l.
+Proof. unfold len; lia. Qed.
+Lemma len_eq_length {A} (a b : list A) : len a = len b -> length a = length b.
+Proof. unfold len; lia. Qed.
+Lemma len_skipn {A} (l : list A) n : 0 <= n <= len l -> len (skipn (Z.to_nat n) l) = len l - n.
+Proof. unfold len; rewrite skipn_length; lia. Qed.
+Lemma len_firstn {A} (l : list A) n : 0 <= n <= len l -> len (firstn (Z.to_nat n) l) = n.
+Proof. unfold len; rewrite firstn_length; lia. Qed.
+Lemma len_repeat {A} (x : A) n : len (repeat x n) = Z.of_nat n.
+Proof. unfold len; rewrite repeat_length; lia. Qed.
+Lemma wfb_app a b : wfb (a ++ b) = wfb a && wfb b.
+Proof. apply forallb_app. Qed.
+Lemma wfb_app_true a b : wfb a = true -> wfb b = true -> wfb (a ++ b) = true.
+Proof. intros; rewrite wfb_app; now rewrite H, H0. Qed.
+Lemma skipn_skipn' {A} (x y : nat) (l : list A) : skipn x (skipn y l) = skipn (y + x) l.
+Proof.
+  revert l; induction y; intros l; cbn [Nat.add]; [reflexivity|].
+  destruct l; [now rewrite !skipn_nil|]. cbn [skipn]. apply IHy.
+Qed.
+Lemma skipn_Z_add {A} (a b : Z) (l : list A) : 0 <= a -> 0 <= b ->
+  skipn (Z.to_nat b) (skipn (Z.to_nat a) l) = skipn (Z.to_nat (a + b)) l.
+Proof. intros; rewrite skipn_skipn'; f_equal; lia. Qed.
+Lemma firstn_app_exact {A} (pre rest : list A) : firstn (length pre) (pre ++ rest) = pre.
+Proof. rewrite firstn_app, Nat.sub_diag, firstn_all; cbn [firstn]; apply app_nil_r. Qed.
+Lemma skipn_app_exact {A} (pre rest : list A) k : skipn (length pre + k) (pre ++ rest) = skipn k rest.
+Proof.
+  rewrite skipn_app, skipn_all2 by lia. cbn [app]. f_equal; lia.
+Qed.
+Lemma skipn_len_app {A} (pre rest : list A) : skipn (Z.to_nat (len pre)) (pre ++ rest) = rest.
+Proof. rewrite to_nat_len. replace (length pre) with (length pre + 0)%nat by lia. now rewrite skipn_app_exact. Qed.
+Lemma w64_small x : 0 <= x < 2 ^ 64 -> w64 x = x.
+Proof. intros; unfold w64; now apply Z.mod_small. Qed.
+Lemma lim_val : lim = 2147483648.
+Proof. reflexivity. Qed.
+
+(* ================= 2. exact writers ================= *)
+Definition short_res (r : eres) (b : bytes) : Prop :=
+  exists k b', r = Ok (k, Some proto_ErrShortBuffer, b') /\ length b' = length b.
+Definition exact (f : bytes -> eres) (n : Z) (bs : bytes) : Prop :=
+  len bs = n /\
+  (forall b, n <= len b -> f b = Ok (n, None, bs ++ skipn (Z.to_nat n) b)) /\
+  (forall b, len b < n -> short_res (f b) b).
+
+Lemma short_res_intro k b' b : length b' = length b -> short_res (Ok (k, Some proto_ErrShortBuffer, b')) b.
+Proof. intros; exists k, b'; auto. Qed.
+
+Lemma exact_nop f : (forall b, f b = ret 0 None b) -> exact f 0 [].
+Proof.
+  intros H; split; [reflexivity|split].
+  - intros b _. rewrite H. reflexivity.
+  - intros b Hb. pose proof (len_nonneg b). lia.
+Qed.
+
+Lemma exact_ext f g n bs : (forall b, f b = g b) -> exact g n bs -> exact f n bs.
+Proof.
+  intros E (H1 & H2 & H3); split; [auto|split]; intros b Hb; rewrite E; auto.
+Qed.
+
+Lemma exact_varint v : u64 v ->
+  exact (fun b => lift3 (proto_encodeVarint b v)) (len (varint v)) (varint v).
+Proof.
+  intros Hu; split; [reflexivity|split]; intros b Hb; unfold lift3.
+  - rewrite (encodeVarint_fits v b Hu Hb). now rewrite to_nat_len.
+  - rewrite (encodeVarint_short v b Hu Hb). now apply short_res_intro.
+Qed.
+
+Lemma le_bytes_len n v : len (le_bytes n v) = Z.of_nat n.
+Proof. revert v; induction n; intros v; [reflexivity|]. cbn [le_bytes]. rewrite len_cons, IHn. lia. Qed.
+Lemma le_bytes_wfb n v : wfb (le_bytes n v) = true.
+Proof.
+  revert v; induction n; intros v; [reflexivity|]. cbn [le_bytes wfb forallb].
+  fold (wfb (le_bytes n (v / 256))). rewrite IHn. unfold is_byte.
+  pose proof (Z.mod_pos_bound v 256 ltac:(lia)). lia.
+Qed.
+
+Lemma exact_le32 v : u32 v -> exact (fun b => lift3 (proto_encodeLE32 b v)) 4 (le_bytes 4 v).
+Proof.
+  intros Hu; split; [apply (le_bytes_len 4)|split]; intros b Hb; unfold lift3;
+    destruct (encodeLE_spec v b) as (A & B & _ & _).
+  - now rewrite (A Hu Hb).
+  - rewrite (B Hb). now apply short_res_intro.
+Qed.
+Lemma exact_le64 v : u64 v -> exact (fun b => lift3 (proto_encodeLE64 b v)) 8 (le_bytes 8 v).
+Proof.
+  intros Hu; split; [apply (le_bytes_len 8)|split]; intros b Hb; unfold lift3;
+    destruct (encodeLE_spec v b) as (_ & _ & A & B).
+  - now rewrite (A Hu Hb).
+  - rewrite (B Hb). now apply short_res_intro.
+Qed.
+
+Lemma exact_bool (x : bool) :
+  exact (fun b => if len b =? 0 then ret 0 (Some proto_ErrShortBuffer) b else ret 1 None (upd b 0 (if x then 1 else 0)))
+        1 [if x then 1 else 0].
+Proof.
+  split; [reflexivity|split]; intros b Hb.
+  - destruct b as [|y r]; [rewrite len_nil in Hb; lia|].
+    rewrite len_cons. pose proof (len_nonneg r).
+    destruct (1 + len r =? 0) eqn:E; [lia|]. reflexivity.
+  - pose proof (len_nonneg b). assert (len b = 0) as -> by lia. cbn [Z.eqb]. now apply short_res_intro.
+Qed.
+
+(* ================= 3. windows ================= *)
+Lemma cfrom_app pre rest off : off = len pre -> cfrom (pre ++ rest) off = Ok rest.
+Proof.
+  intros ->. unfold cfrom. pose proof (len_nonneg pre). pose proof (len_nonneg rest).
+  rewrite len_app.
+  destruct ((0 <=? len pre) && (len pre <=? len pre + len rest)) eqn:E; [|lia].
+  unfold slice_from. now rewrite skipn_len_app.
+Qed.
+Lemma splice_app pre rest off w : off = len pre ->
+  splice (pre ++ rest) off w = (pre ++ w) ++ skipn (length w) rest.
+Proof.
+  intros ->. unfold splice. rewrite to_nat_len, firstn_app_exact, skipn_app_exact. now rewrite app_assoc.
+Qed.
+Lemma splice_app_full pre rest off w : off = len pre -> length w = length rest ->
+  splice (pre ++ rest) off w = pre ++ w.
+Proof.
+  intros. rewrite splice_app by assumption. rewrite H0, skipn_all. apply app_nil_r.
+Qed.
+
+Lemma in_from_fits f n bs pre rest off : exact f n bs -> off = len pre -> n <= len rest ->
+  in_from (pre ++ rest) off f = Ok (n, None, (pre ++ bs) ++ skipn (Z.to_nat n) rest).
+Proof.
+  intros (Hl & Hf & _) Ho Hn. unfold in_from. rewrite (cfrom_app _ _ _ Ho). cbn [rbind].
+  rewrite (Hf rest Hn). cbn [rbind].
+  rewrite splice_app_full; [now rewrite app_assoc|assumption|].
+  apply len_eq_length. pose proof (len_nonneg bs). rewrite len_app, len_skipn by lia. lia.
+Qed.
+Lemma in_from_short f n bs pre rest off : exact f n bs -> off = len pre -> len rest < n ->
+  short_res (in_from (pre ++ rest) off f) (pre ++ rest).
+Proof.
+  intros (Hl & _ & Hs) Ho Hn. unfold in_from. rewrite (cfrom_app _ _ _ Ho). cbn [rbind].
+  destruct (Hs rest Hn) as (k & b' & E & L). rewrite E. cbn [rbind].
+  rewrite splice_app_full by assumption. apply short_res_intro. now rewrite !app_length, L.
+Qed.
+
+Lemma in_window_fits f n bs pre rest off : exact f n bs -> off = len pre -> n <= len rest ->
+  in_window (pre ++ rest) off n f = Ok (n, None, (pre ++ bs) ++ skipn (Z.to_nat n) rest).
+Proof.
+  intros (Hl & Hf & _) Ho Hn. unfold in_window, cslice. subst off.
+  pose proof (len_nonneg pre). pose proof (len_nonneg bs). rewrite len_app.
+  destruct ((0 <=? len pre) && (len pre <=? len pre + n) && (len pre + n <=? len pre + len rest)) eqn:E; [|lia].
+  cbn [rbind]. unfold slice. rewrite skipn_len_app. replace (len pre + n - len pre) with n by lia.
+  rewrite (Hf (firstn (Z.to_nat n) rest)) by (rewrite len_firstn; lia). cbn [rbind].
+  rewrite skipn_all2 by (apply Nat2Z.inj_le; fold (len (firstn (Z.to_nat n) rest)); rewrite len_firstn; lia).
+  rewrite app_nil_r. rewrite splice_app by reflexivity. now rewrite <- Hl, to_nat_len.
+Qed.
+
+Lemma copy_at_app pre rest off src : off = len pre ->
+  copy_at (pre ++ rest) off src =
+    Ok (Z.min (len rest) (len src),
+        (pre ++ slice_to src (Z.min (len rest) (len src))) ++
+        skipn (Z.to_nat (Z.min (len rest) (len src))) rest).
+Proof.
+  intros Ho. unfold copy_at. rewrite (cfrom_app _ _ _ Ho). cbn [rbind].
+  rewrite splice_app by assumption. do 3 f_equal.
+  unfold slice_to. rewrite firstn_length. pose proof (len_nonneg rest). pose proof (len_nonneg src).
+  unfold len in *. f_equal. lia.
+Qed.
+Lemma copy_at_fits pre rest off src : off = len pre -> len src <= len rest ->
+  copy_at (pre ++ rest) off src = Ok (len src, (pre ++ src) ++ skipn (Z.to_nat (len src)) rest).
+Proof.
+  intros Ho Hl. rewrite copy_at_app by assumption. rewrite Z.min_r by lia.
+  unfold slice_to. now rewrite to_nat_len, firstn_all.
+Qed.
+Lemma copy_at_short pre rest off src : off = len pre -> len rest < len src ->
+  exists b', copy_at (pre ++ rest) off src = Ok (len rest, b') /\ length b' = length (pre ++ rest).
+Proof.
+  intros Ho Hl. rewrite copy_at_app by assumption. rewrite Z.min_l by lia.
+  eexists; split; [reflexivity|].
+  rewrite to_nat_len, skipn_all, app_nil_r, !app_length. f_equal.
+  unfold slice_to. rewrite firstn_length. unfold len in *. lia.
+Qed.
+
+(* encodeString / encodeBytes / byte arrays *)
+Lemma varint_len_bounds v : u64 v -> 1 <= len (varint v) <= 10.
+Proof. intros; now destruct (varint_length v H). Qed.
+Lemma varint_wfb v : u64 v -> wfb (varint v) = true.
+Proof. intros; now destruct (varint_length v H). Qed.
+
+Lemma exact_varlen s : len s < lim ->
+  exact (fun b => encode_varlen_bytes b s) (len (varint (len s)) + len s) (varint (len s) ++ s).
+Proof.
+  intros Hl. pose proof (len_nonneg s) as Hs0. rewrite lim_val in Hl.
+  assert (Hu : u64 (len s)) by (unfold u64; lia).
+  pose proof (varint_len_bounds _ Hu) as Hv.
+  split; [apply len_app|split]; intros b Hb; unfold encode_varlen_bytes; rewrite (w64_small (len s)) by (unfold u64 in Hu; lia).
+  - rewrite (encodeVarint_fits (len s) b Hu) by lia.
+    cbv beta iota. rewrite <- to_nat_len.
+    rewrite (copy_at_fits (varint (len s)) _ _ s eq_refl) by (rewrite len_skipn; lia).
+    cbn [rbind]. unfold ret. rewrite Z.ltb_irrefl. rewrite skipn_Z_add by lia. reflexivity.
+  - destruct (Z_lt_le_dec (len b) (len (varint (len s)))) as [Hc|Hc].
+    + rewrite (encodeVarint_short (len s) b Hu Hc). cbv beta iota. now apply short_res_intro.
+    + rewrite (encodeVarint_fits (len s) b Hu Hc). cbv beta iota. rewrite <- to_nat_len.
+      destruct (copy_at_short (varint (len s)) (skipn (Z.to_nat (len (varint (len s)))) b) _ s eq_refl) as (b' & E & L).
+      { rewrite len_skipn; lia. }
+      rewrite E. cbn [rbind]. unfold ret. rewrite len_skipn by lia.
+      destruct (len b - len (varint (len s)) <? len s) eqn:E2; [|lia].
+      apply short_res_intro. rewrite L. apply len_eq_length. rewrite len_app, len_skipn; lia.
+Qed.
+
+Lemma sizeOfVarlen_len s : wfb s = true -> len s < lim ->
+  proto_sizeOfVarlen (len s) = len (varint (len s)) + len s.
+Proof.
+  intros Hw Hl. rewrite lim_val in Hl.
+  destruct (decodeVarlen_encode s [] Hw) as (_ & E); [lia|rewrite len_nil; lia|exact E].
+Qed.
+
+(* ================= 4. flags ================= *)
+Ltac enum16 H :=
+  match type of H with
+  | 0 <= ?f < 16 =>
+      let HH := fresh "HH" in
+      assert (HH : f = 0 \/ f = 1 \/ f = 2 \/ f = 3 \/ f = 4 \/ f = 5 \/ f = 6 \/ f = 7 \/
+                   f = 8 \/ f = 9 \/ f = 10 \/ f = 11 \/ f = 12 \/ f = 13 \/ f = 14 \/ f = 15) by lia;
+      clear H; repeat (destruct HH as [HH|HH]); subst f
+  end.
+Ltac enum8 H :=
+  match type of H with
+  | 0 <= ?f < 8 =>
+      let HH := fresh "HH" in
+      assert (HH : f = 0 \/ f = 1 \/ f = 2 \/ f = 3 \/ f = 4 \/ f = 5 \/ f = 6 \/ f = 7) by lia;
+      clear H; repeat (destruct HH as [HH|HH]); subst f
+  end.
+Ltac fin_flags := vm_compute; split; [discriminate|reflexivity].
+
+Lemma flags_ok_without_wz f : flags_ok f -> flags_ok (without f proto_wantzero).
+Proof. unfold flags_ok; intros H; enum16 H; fin_flags. Qed.
+Lemma flags_ok_struct0 inl_ f : flags_ok f ->
+  flags_ok (if inl_ : bool then without f proto_toplevel else without f (Z.lor proto_inline proto_toplevel)).
+Proof. unfold flags_ok; intros H; destruct inl_; enum16 H; fin_flags. Qed.
+Lemma flags_ok_ptr f : flags_ok f -> flags_ok (with_ (without f proto_inline) proto_wantzero).
+Proof. unfold flags_ok; intros H; enum16 H; fin_flags. Qed.
+Lemma flags_ok_make f base : 0 <= sf_flags f < 8 -> flags_ok base -> flags_ok (make_flags f base).
+Proof.
+  unfold flags_ok, make_flags; intros H1 H2.
+  assert (Z.land (sf_flags f) proto_zigzag = 0 \/ Z.land (sf_flags f) proto_zigzag = 4) as [-> | ->].
+  { generalize dependent (sf_flags f). intros z H; enum8 H; vm_compute; auto. }
+  - enum16 H2; fin_flags.
+  - enum16 H2; fin_flags.
+Qed.
+Lemma flags_ok_wz : flags_ok proto_wantzero.
+Proof. fin_flags. Qed.
+
+(* ================= 5. sizes ================= *)
+Lemma sov_u64 v : u64 v -> proto_sizeOfVarint v = len (varint v).
+Proof. apply sizeOfVarint_spec. Qed.
+Lemma s64_lb y : - 2 ^ 63 <= s64 y.
+Proof.
+  unfold s64, w64. pose proof (Z.mod_pos_bound y (2 ^ 64) ltac:(lia)).
+  destruct (y mod 2 ^ 64 <? 2 ^ 63) eqn:E; lia.
+Qed.
+Lemma sov_lb x : - 2 ^ 63 <= proto_sizeOfVarint x.
+Proof. unfold proto_sizeOfVarint, divi64. apply s64_lb. Qed.
+Lemma szv_bound x : 0 <= x ->
+  (x < 2 ^ 64 /\ 1 <= proto_sizeOfVarint x <= 10) \/ lim <= x + proto_sizeOfVarint x.
+Proof.
+  intros H. destruct (Z_lt_le_dec x (2 ^ 64)) as [L|L].
+  - left. split; [assumption|]. rewrite sov_u64 by (unfold u64; lia). apply varint_len_bounds; unfold u64; lia.
+  - right. pose proof (sov_lb x). rewrite lim_val. lia.
+Qed.
+(* the length prefix of an embedded part *)
+Definition lenpfx (emb : bool) (size : Z) : bytes := if emb then varint size else [].
+Lemma lenpfx_size (emb : bool) size : 0 <= size < lim ->
+  (if emb then proto_sizeOfVarint size else 0) = len (lenpfx emb size) /\ wfb (lenpfx emb size) = true /\
+  0 <= len (lenpfx emb size) <= 10.
+Proof.
+  intros H. rewrite lim_val in H. assert (u64 size) by (unfold u64; lia).
+  destruct emb; cbn [lenpfx].
+  - rewrite sov_u64 by assumption. pose proof (varint_len_bounds _ H0). split; [reflexivity|split; [now apply varint_wfb|lia]].
+  - split; [reflexivity|split; [reflexivity|unfold len; cbn [length]; lia]].
+Qed.
+(* [size + optional prefix]: non-negative, and bounded only if [size] is *)
+Lemma part_bound (emb : bool) size : 0 <= size ->
+  let p := size + (if emb then proto_sizeOfVarint size else 0) in
+  0 <= p /\ (p < lim -> size <= p /\ size < lim).
+Proof.
+  intros H p. subst p. destruct emb; [|lia].
+  pose proof lim_val. destruct (szv_bound size H) as [(A & B)|A]; lia.
+Qed.
+
+(* ================= 6. tags ================= *)
+Lemma tag_u64 num wt : 1 <= num < 2 ^ 16 -> 0 <= wt < 8 -> u64 (tag_of num wt).
+Proof. unfold u64, tag_of; lia. Qed.
+Lemma sizeOfTag_len num wt : 1 <= num < 2 ^ 16 -> 0 <= wt < 8 ->
+  proto_sizeOfTag num wt = len (varint (tag_of num wt)).
+Proof. intros H1 H2. destruct (tag_spec num wt [] ltac:(lia) H2) as (_ & E & _). exact E. Qed.
+Lemma encodeTag_eq num wt b : 1 <= num < 2 ^ 16 -> 0 <= wt < 8 ->
+  proto_encodeTag b num wt = proto_encodeVarint b (tag_of num wt).
+Proof. intros H1 H2. destruct (tag_spec num wt b ltac:(lia) H2) as (E & _). exact E. Qed.
+Lemma exact_tag num wt : 1 <= num < 2 ^ 16 -> 0 <= wt < 8 ->
+  exact (fun w => lift3 (proto_encodeTag w num wt)) (len (varint (tag_of num wt))) (varint (tag_of num wt)).
+Proof.
+  intros H1 H2. eapply exact_ext; [|apply exact_varint, tag_u64; assumption].
+  intros b. cbv beta. now rewrite encodeTag_eq.
+Qed.
+Lemma tagData_eq num wt : 1 <= num < 2 ^ 16 -> 0 <= wt < 8 ->
+  proto_encodeTag (repeat 0 (Z.to_nat (proto_sizeOfTag num wt))) num wt =
+  (len (varint (tag_of num wt)), None, varint (tag_of num wt)).
+Proof.
+  intros H1 H2. rewrite encodeTag_eq, sizeOfTag_len by assumption.
+  rewrite encodeVarint_fits; [|now apply tag_u64|rewrite len_repeat, to_nat_len; unfold len; lia].
+  rewrite to_nat_len, skipn_all2 by (rewrite repeat_length; lia). now rewrite app_nil_r.
+Qed.
+Lemma varint_small x : 0 <= x < 128 -> varint x = [x].
+Proof. intros H. unfold varint. cbn [varint_fuel]. destruct (x <? 128) eqn:E; [reflexivity|lia]. Qed.
+Lemma entryTag_eq num wt : 1 <= num <= 2 -> 0 <= wt < 8 ->
+  proto_encodeTag [0] num wt = (1, None, [tag_of num wt]) /\ proto_sizeOfTag num wt = 1 /\ wfb [tag_of num wt] = true.
+Proof.
+  intros H1 H2. assert (Hs : 0 <= tag_of num wt < 128) by (unfold tag_of; lia).
+  rewrite encodeTag_eq, sizeOfTag_len by lia.
+  rewrite encodeVarint_fits; [|unfold u64; lia|rewrite varint_small by assumption; cbn; lia].
+  rewrite varint_small by assumption. repeat split.
+  cbn [wfb forallb]. unfold is_byte. lia.
+Qed.
+Lemma skipn_repeat_app {A} (x : A) n l : skipn n (repeat x n ++ l) = l.
+Proof. induction n; cbn [repeat app skipn]; auto. Qed.
+Lemma zeroTag_eq num : 1 <= num < 2 ^ 16 ->
+  proto_encodeTag (repeat 0 (Z.to_nat (proto_sizeOfTag num proto_varlen + proto_zeroSize))) num proto_varlen =
+  (len (varint (tag_of num proto_varlen)), None, varint (tag_of num proto_varlen) ++ [0]).
+Proof.
+  intros H1. assert (H2 : 0 <= proto_varlen < 8) by (cbv; split; [discriminate|reflexivity]).
+  rewrite encodeTag_eq, sizeOfTag_len by assumption.
+  pose proof (varint_len_bounds _ (tag_u64 _ _ H1 H2)) as Hb.
+  replace (Z.to_nat (len (varint (tag_of num proto_varlen)) + proto_zeroSize))
+    with (length (varint (tag_of num proto_varlen)) + 1)%nat by (unfold len, proto_zeroSize; lia).
+  rewrite repeat_app.
+  rewrite encodeVarint_fits; [|now apply tag_u64|rewrite len_app, len_repeat; unfold len; cbn [repeat length]; lia].
+  rewrite skipn_repeat_app. reflexivity.
+Qed.
+
+(* ================= 7. compatibility of a compiled codec with a value ================= *)
+Fixpoint cok (c : codec) : Prop :=
+  match c with
+  | CPtr _ c' => cok c'
+  | CStruct _ fs =>
+      (fix go (fs : list sfield) : Prop :=
+         match fs with
+         | [] => True
+         | SField n ts fl _ c' :: r =>
+             (1 <= n < 2 ^ 16 /\ ts = proto_sizeOfTag n (wire c') /\ 0 <= fl < 8 /\ cok c') /\ go r
+         end) fs
+  | CSlice n wt _ _ c' => 1 <= n < 2 ^ 16 /\ 0 <= wt < 8 /\ cok c'
+  | CMap n _ _ _ _ k v => 1 <= n < 2 ^ 16 /\ cok k /\ cok v
+  | CUnsupported => False
+  | _ => True
+  end.
+
+Fixpoint vok (c : codec) (v : val) {struct c} : Prop :=
+  match c, v with
+  | CBool, VBool _ => True
+  | (CInt | CInt32 | CInt64), VInt z => i64 z
+  | (CUint | CUint32 | CUint64 | CFixed64 | CFloat64), VInt z => u64 z
+  | (CFixed32 | CFloat32), VInt z => u32 z
+  | CString, VStr s => wfb s = true /\ len s < lim
+  | CBytes, VBytes _ s => wfb s = true /\ len s < lim
+  | CByteArray n, VArr s => wfb s = true /\ len s < lim /\ len s = Z.of_nat n
+  | CMessage, VRaw _ s => wfb s = true /\ len s < lim
+  | CPtr _ c', VPtr None => True
+  | CPtr _ c', VPtr (Some x) => vok c' x
+  | CStruct _ fs, VStruct vs =>
+      (fix go (fs : list sfield) (vs : list val) : Prop :=
+         match fs, vs with
+         | [], [] => True
+         | SField _ _ _ _ c' :: fr, x :: vr => vok c' x /\ go fr vr
+         | _, _ => False
+         end) fs vs
+  | CSlice _ _ _ _ c', VSlice es => Forall (vok c') es
+  | CMap _ _ _ _ _ kc vc, VMap _ es => Forall (fun kv => vok kc (fst kv) /\ vok vc (snd kv)) es
+  | _, _ => False
+  end.
+Definition ovok (c : codec) (ov : option val) : Prop := match ov with None => True | Some v => vok c v end.
+
+Definition Gres (f : bytes -> eres) (n : Z) : Prop :=
+  0 <= n /\ (n < lim -> exists bs, wfb bs = true /\ exact f n bs).
+Definition G (c : codec) : Prop :=
+  forall ov flags, ovok c ov -> flags_ok flags ->
+    Gres (fun b => encode c b ov flags) (size_of c ov flags).
+
+Lemma Gres_nop f : (forall b, f b = ret 0 None b) -> Gres f 0.
+Proof. intros H; split; [lia|]. intros _. exists []. split; [reflexivity|now apply exact_nop]. Qed.
+Lemma Gres_exact f n bs : exact f n bs -> wfb bs = true -> Gres f n.
+Proof.
+  intros He Hw; split.
+  - destruct He as (<- & _). apply len_nonneg.
+  - intros _. now exists bs.
+Qed.
+
+Lemma Gres_eq f n m : n = m -> Gres f m -> Gres f n.
+Proof. now intros ->. Qed.
+
+(* induction over the nested codec type *)
+Definition sub_ok (P : codec -> Prop) (c : codec) : Prop :=
+  match c with
+  | CPtr _ c' => P c'
+  | CStruct _ fs => Forall (fun f => P (sf_codec f)) fs
+  | CSlice _ _ _ _ c' => P c'
+  | CMap _ _ _ _ _ k v => P k /\ P v
+  | _ => True
+  end.
+Lemma codec_ind' (P : codec -> Prop) : (forall c, sub_ok P c -> P c) -> forall c, P c.
+Proof.
+  intros H. fix IH 1. intros c. apply H. destruct c; cbn [sub_ok]; auto.
+  revert fields. fix IHl 1. intros [|f r]; constructor.
+  - destruct f. cbn [sf_codec]. apply IH.
+  - apply IHl.
+Qed.
+
+Lemma cok_wire c : cok c -> 0 <= wire c < 8.
+Proof.
+  induction c using codec_ind'. destruct c; cbn [wire cok sub_ok] in *; intros Hc;
+    try (cbv; split; [discriminate|reflexivity]); auto.
+  - tauto.
+Qed.
+
+(* ================= 8. the leaves ================= *)
+Lemma encode_None c b flags : encode c b None flags = ret 0 None b.
+Proof. destruct c; reflexivity. Qed.
+Lemma size_of_None c flags : size_of c None flags = 0.
+Proof. destruct c; reflexivity. Qed.
+
+Lemma G_None c flags : Gres (fun b => encode c b None flags) (size_of c None flags).
+Proof. rewrite size_of_None. apply Gres_nop. intros; apply encode_None. Qed.
+
+Lemma Gres_varint (cond : bool) u : u64 u ->
+  Gres (fun b => if cond then lift3 (proto_encodeVarint b u) else ret 0 None b)
+       (if cond then proto_sizeOfVarint u else 0).
+Proof.
+  intros Hu. destruct cond; [|now apply Gres_nop].
+  rewrite sov_u64 by assumption. eapply Gres_exact; [now apply exact_varint|now apply varint_wfb].
+Qed.
+Lemma Gres_le32 (cond : bool) u : u32 u ->
+  Gres (fun b => if cond then lift3 (proto_encodeLE32 b u) else ret 0 None b) (if cond then 4 else 0).
+Proof.
+  intros Hu. destruct cond; [|now apply Gres_nop].
+  eapply Gres_exact; [now apply exact_le32|apply le_bytes_wfb].
+Qed.
+Lemma Gres_le64 (cond : bool) u : u64 u ->
+  Gres (fun b => if cond then lift3 (proto_encodeLE64 b u) else ret 0 None b) (if cond then 8 else 0).
+Proof.
+  intros Hu. destruct cond; [|now apply Gres_nop].
+  eapply Gres_exact; [now apply exact_le64|apply le_bytes_wfb].
+Qed.
+Lemma Gres_varlen (cond : bool) s n : wfb s = true -> len s < lim -> n = len s ->
+  Gres (fun b => if cond then encode_varlen_bytes b s else ret 0 None b) (if cond then proto_sizeOfVarlen n else 0).
+Proof.
+  intros Hw Hl ->. destruct cond; [|now apply Gres_nop].
+  rewrite sizeOfVarlen_len by assumption.
+  eapply Gres_exact; [now apply exact_varlen|].
+  apply wfb_app_true; [|assumption]. apply varint_wfb. pose proof (len_nonneg s). rewrite lim_val in Hl. unfold u64; lia.
+Qed.
+
+Lemma exact_msg_top s :
+  exact (fun b => if len b <? len s then ret 0 (Some proto_ErrShortBuffer) b
+                  else rlet (_, b) <- copy_at b 0 s in ret (len s) None b) (len s) s.
+Proof.
+  split; [reflexivity|split]; intros b Hb.
+  - destruct (len b <? len s) eqn:E; [lia|].
+    pose proof (copy_at_fits [] b 0 s eq_refl Hb) as Ec. cbn [app] in Ec. rewrite Ec. reflexivity.
+  - destruct (len b <? len s) eqn:E; [|lia]. now apply short_res_intro.
+Qed.
+Lemma exact_msg_inner s : wfb s = true -> len s < lim ->
+  exact (fun b =>
+           let vlen := proto_sizeOfVarlen (len s) in
+           if len b <? vlen then ret 0 (Some proto_ErrShortBuffer) b
+           else
+             let '(n, err, b) := proto_encodeVarint b (w64 (len s)) in
+             match err with
+             | Some _ => ret n err b
+             | None => rlet (_, b) <- copy_at b n s in ret vlen None b
+             end) (len (varint (len s)) + len s) (varint (len s) ++ s).
+Proof.
+  intros Hw Hl. pose proof (len_nonneg s) as Hs0.
+  assert (Hu : u64 (len s)) by (rewrite lim_val in Hl; unfold u64; lia).
+  pose proof (varint_len_bounds _ Hu) as Hv.
+  split; [apply len_app|split]; intros b Hb; cbv zeta; rewrite sizeOfVarlen_len by assumption.
+  - destruct (len b <? len (varint (len s)) + len s) eqn:E; [lia|].
+    rewrite (w64_small (len s)) by (unfold u64 in Hu; lia).
+    rewrite (encodeVarint_fits (len s) b Hu) by lia. cbv beta iota. rewrite <- to_nat_len.
+    rewrite (copy_at_fits (varint (len s)) _ _ s eq_refl) by (rewrite len_skipn; lia).
+    cbn [rbind]. unfold ret. rewrite skipn_Z_add by lia. reflexivity.
+  - destruct (len b <? len (varint (len s)) + len s) eqn:E; [|lia]. now apply short_res_intro.
+Qed.
+
+Lemma G_leaves c : match c with CPtr _ _ | CStruct _ _ | CSlice _ _ _ _ _ | CMap _ _ _ _ _ _ _ | CUnsupported => True | _ => G c end.
+Proof.
+  destruct c; try exact I; intros [v|] flags Hv Hf; try apply G_None;
+    destruct v; cbn [ovok vok] in Hv; try contradiction; cbn [size_of encode].
+  - (* bool *) destruct (b || has flags proto_wantzero); [|now apply Gres_nop].
+    eapply Gres_exact; [apply exact_bool|]. destruct b; reflexivity.
+  - apply Gres_varint. apply flags_int64_spec; [unfold flags_ok in Hf; lia|assumption].
+  - apply Gres_varint. apply flags_int64_spec; [unfold flags_ok in Hf; lia|assumption].
+  - apply Gres_varint. apply flags_int64_spec; [unfold flags_ok in Hf; lia|assumption].
+  - now apply Gres_varint.
+  - now apply Gres_varint.
+  - now apply Gres_varint.
+  - now apply Gres_le32.
+  - now apply Gres_le64.
+  - now apply Gres_le32.
+  - now apply Gres_le64.
+  - destruct Hv. now apply Gres_varlen.
+  - destruct Hv. now apply Gres_varlen.
+  - destruct Hv as (? & ? & ?). apply Gres_varlen; auto.
+  - (* message *) destruct Hv as (Hw & Hl). destruct (has flags proto_toplevel).
+    + eapply Gres_exact; [apply exact_msg_top|assumption].
+    + eapply Gres_eq; [now apply sizeOfVarlen_len|].
+      eapply Gres_exact; [now apply exact_msg_inner|].
+      apply wfb_app_true; [|assumption]. apply varint_wfb. pose proof (len_nonneg s). rewrite lim_val in Hl. unfold u64; lia.
+Qed.
+
+(* ================= 9. the loops of the model, restated with named steps (convertible) ================= *)
+Definition emb_step (emb : bool) (size offset : Z) (b : bytes) : eres :=
+  if emb then
+    rlet (n, err, b) <- in_from b offset (fun w => lift3 (proto_encodeVarint w (w64 size))) in
+    Ok (offset + n, err, b)
+  else Ok (offset, None, b).
+
+Definition data_step (c : codec) (v : val) (fl size offset : Z) (b : bytes) (K : Z -> bytes -> eres) : eres :=
+  if (len b - offset) <? size then ret (len b) (Some proto_ErrShortBuffer) b else
+  rlet (n, err, b) <- in_window b offset size (fun w => encode c w (Some v) fl) in
+  let offset := offset + n in
+  match err with Some _ => ret offset err b | None => K offset b end.
+
+Definition elem_tail (emb : bool) (c : codec) (v : val) (fl size offset : Z) (b : bytes) (K : Z -> bytes -> eres) : eres :=
+  rlet (offset, err, b) <- emb_step emb size offset b in
+  match err with Some _ => ret offset err b | None => data_step c v fl size offset b K end.
+
+Definition field_step (f : sfield) (v : val) (fl size offset : Z) (b : bytes) (K : Z -> bytes -> eres) : eres :=
+  rlet (n, err, b) <- in_from b offset (fun w => lift3 (proto_encodeTag w (sf_number f) (wire (sf_codec f)))) in
+  let offset := offset + n in
+  match err with Some _ => ret offset err b | None =>
+  elem_tail (sf_embedded f) (sf_codec f) v fl size offset b K end.
+
+Fixpoint pass_ (rep : bool) (fs : list sfield) (vs : list val) (flags : Z) (n : Z) {struct fs} : Z * Z :=
+  match fs, vs with
+  | f :: fr, v :: vr =>
+      if Bool.eqb (sf_repeated f) rep then
+        let size := size_of (sf_codec f) (Some v) (make_flags f flags) in
+        if size >? 0 then
+          let n' := if rep then n + size
+                    else n + sf_tagsize f + size + (if sf_embedded f then proto_sizeOfVarint size else 0) in
+          pass_ rep fr vr (without flags proto_wantzero) n'
+        else pass_ rep fr vr flags n
+      else pass_ rep fr vr flags n
+  | _, _ => (flags, n)
+  end.
+
+Fixpoint uniq_ (fs : list sfield) (vs : list val) (flags : Z) (offset : Z) (b : bytes)
+               (k : Z -> Z -> bytes -> eres) {struct fs} : eres :=
+  match fs, vs with
+  | f :: fr, v :: vr =>
+      if sf_repeated f then uniq_ fr vr flags offset b k else
+      let fieldFlags := make_flags f flags in
+      let size := size_of (sf_codec f) (Some v) fieldFlags in
+      if size >? 0 then
+        field_step f v fieldFlags size offset b (fun offset b => uniq_ fr vr (without flags proto_wantzero) offset b k)
+      else uniq_ fr vr flags offset b k
+  | _, _ => k flags offset b
+  end.
+
+Fixpoint reps_ (fs : list sfield) (vs : list val) (flags : Z) (offset : Z) (b : bytes) {struct fs} : eres :=
+  match fs, vs with
+  | f :: fr, v :: vr =>
+      if negb (sf_repeated f) then reps_ fr vr flags offset b else
+      rlet (n, err, b) <- in_from b offset (fun w => encode (sf_codec f) w (Some v) (make_flags f flags)) in
+      let offset := offset + n in
+      match err with Some _ => ret offset err b | None =>
+      reps_ fr vr (if n >? 0 then without flags proto_wantzero else flags) offset b
+      end
+  | _, _ => ret offset None b
+  end.
+
+Definition struct_flags0 (inl_ : bool) (flags : Z) : Z :=
+  if inl_ then without flags proto_toplevel else without flags (Z.lor proto_inline proto_toplevel).
+
+Lemma size_of_struct inl_ fields vs flags :
+  size_of (CStruct inl_ fields) (Some (VStruct vs)) flags =
+  let '(flags1, n1) := pass_ false fields vs (struct_flags0 inl_ flags) 0 in
+  let '(_, n2) := pass_ true fields vs flags1 n1 in n2.
+Proof. reflexivity. Qed.
+
+Lemma encode_struct inl_ fields vs flags b :
+  encode (CStruct inl_ fields) b (Some (VStruct vs)) flags =
+  uniq_ fields vs (struct_flags0 inl_ flags) 0 b (fun flags offset b => reps_ fields vs flags offset b).
+Proof. reflexivity. Qed.
+
+Definition slice_elem (tagData : bytes) (emb : bool) (c' : codec) (e : val) (offset : Z) (b : bytes) (K : Z -> bytes -> eres) : eres :=
+  let size := size_of c' (Some e) proto_wantzero in
+  rlet (n, b) <- copy_at b offset tagData in
+  let offset := offset + n in
+  if n <? len tagData then ret offset (Some proto_ErrShortBuffer) b else
+  elem_tail emb c' e proto_wantzero size offset b K.
+
+Definition slice_go (tagData : bytes) (emb : bool) (c' : codec) : list val -> Z -> bytes -> eres :=
+  fix go (es : list val) (offset : Z) (b : bytes) {struct es} : eres :=
+  match es with
+  | [] => ret offset None b
+  | e :: er => slice_elem tagData emb c' e offset b (fun offset b => go er offset b)
+  end.
+
+Lemma encode_slice number wt emb et c' es flags b :
+  encode (CSlice number wt emb et c') b (Some (VSlice es)) flags =
+  let tagSize := proto_sizeOfTag number wt in
+  let '(_, _, tagData) := proto_encodeTag (repeat 0 (Z.to_nat tagSize)) number wt in
+  slice_go tagData emb c' es 0 b.
+Proof. reflexivity. Qed.
+
+Definition slice_F (tagSize : Z) (emb : bool) (c' : codec) (n : Z) (e : val) : Z :=
+  let size := size_of c' (Some e) proto_wantzero in
+  n + tagSize + size + (if emb then proto_sizeOfVarint size else 0).
+Lemma size_of_slice number wt emb et c' es flags :
+  size_of (CSlice number wt emb et c') (Some (VSlice es)) flags =
+  fold_left (slice_F (proto_sizeOfTag number wt) emb c') es 0.
+Proof. reflexivity. Qed.
+
+Definition map_part (tg : bytes) (embf : bool) (pc : codec) (pv : val) (psize offset : Z) (b : bytes) (short_ret_n : bool) : eres :=
+  if psize >? 0 then
+    rlet (n, b) <- copy_at b offset tg in
+    let offset' := offset + n in
+    if n <? len tg then Ok ((if short_ret_n then n else offset'), Some proto_ErrShortBuffer, b) else
+    rlet (offset', err, b) <- emb_step embf psize offset' b in
+    match err with Some _ => Ok (offset', err, b) | None =>
+    if (len b - offset') <? psize then Ok (len b, Some proto_ErrShortBuffer, b) else
+    rlet (n, err, b) <- in_window b offset' psize (fun w => encode pc w (Some pv) proto_wantzero) in
+    Ok (offset' + n, err, b)
+    end
+  else Ok (offset, None, b).
+
+Definition map_esize_enc (keyTag valTag : bytes) (kf vf keySize valSize : Z) : Z :=
+  let elemSize := keySize + valSize in
+  let elemSize := if keySize >? 0 then elemSize + len keyTag + (if negb (Z.land kf proto_embedded =? 0) then proto_sizeOfVarint keySize else 0) else elemSize in
+  let elemSize := if valSize >? 0 then elemSize + len valTag + (if negb (Z.land vf proto_embedded =? 0) then proto_sizeOfVarint valSize else 0) else elemSize in
+  elemSize.
+
+Definition map_entry (keyTag valTag mapTag : bytes) (kf vf : Z) (kc vc : codec) (k v : val)
+                     (offset : Z) (b : bytes) (K : Z -> bytes -> eres) : eres :=
+  let keySize := size_of kc (Some k) proto_wantzero in
+  let valSize := size_of vc (Some v) proto_wantzero in
+  let elemSize := map_esize_enc keyTag valTag kf vf keySize valSize in
+  rlet (n, b) <- copy_at b offset mapTag in
+  let offset := offset + n in
+  if n <? len mapTag then ret offset (Some proto_ErrShortBuffer) b else
+  rlet (n, err, b) <- in_from b offset (fun w => lift3 (proto_encodeVarint w (w64 elemSize))) in
+  let offset := offset + n in
+  match err with Some _ => ret offset err b | None =>
+  rlet (offset, err, b) <- map_part keyTag (negb (Z.land kf proto_embedded =? 0)) kc k keySize offset b false in
+  match err with Some _ => ret offset err b | None =>
+  rlet (offset, err, b) <- map_part valTag (negb (Z.land vf proto_embedded =? 0)) vc v valSize offset b true in
+  match err with Some _ => ret offset err b | None => K offset b end end end.
+
+Definition map_go (keyTag valTag zero mapTag : bytes) (kf vf : Z) (kc vc : codec) : list (val * val) -> Z -> bytes -> eres :=
+  fix go (es : list (val * val)) (offset : Z) (b : bytes) {struct es} : eres :=
+  match es with
+  | [] =>
+      if offset =? 0 then
+        rlet (n, b) <- copy_at b 0 zero in
+        if n <? len zero then ret n (Some proto_ErrShortBuffer) b else ret n None b
+      else ret offset None b
+  | (k, v) :: er => map_entry keyTag valTag mapTag kf vf kc vc k v offset b (fun offset b => go er offset b)
+  end.
+
+Lemma encode_map number kf vf kt vt kc vc nn es flags b :
+  encode (CMap number kf vf kt vt kc vc) b (Some (VMap nn es)) flags =
+  let '(_, _, keyTag) := proto_encodeTag [0] 1 (wire kc) in
+  let '(_, _, valTag) := proto_encodeTag [0] 2 (wire vc) in
+  let tagsz := proto_sizeOfTag number proto_varlen in
+  let '(_, _, zero) := proto_encodeTag (repeat 0 (Z.to_nat (tagsz + proto_zeroSize))) number proto_varlen in
+  let mapTag := slice_to zero (len zero - 1) in
+  map_go keyTag valTag zero mapTag kf vf kc vc es 0 b.
+Proof. reflexivity. Qed.
+
+Definition map_esize_sz (kf vf : Z) (kc vc : codec) (keySize valSize : Z) : Z :=
+  let keyTagSize := proto_sizeOfTag 1 (wire kc) in
+  let valTagSize := proto_sizeOfTag 2 (wire vc) in
+  let elemSize := 0 in
+  let elemSize := if keySize >? 0 then elemSize + keyTagSize + keySize + (if negb (Z.land kf proto_embedded =? 0) then proto_sizeOfVarint keySize else 0) else elemSize in
+  let elemSize := if valSize >? 0 then elemSize + valTagSize + valSize + (if negb (Z.land vf proto_embedded =? 0) then proto_sizeOfVarint valSize else 0) else elemSize in
+  elemSize.
+Definition map_F (number kf vf : Z) (kc vc : codec) (n : Z) (kv : val * val) : Z :=
+  let keySize := size_of kc (Some (fst kv)) proto_wantzero in
+  let valSize := size_of vc (Some (snd kv)) proto_wantzero in
+  let elemSize := map_esize_sz kf vf kc vc keySize valSize in
+  n + proto_sizeOfTag number proto_varlen + proto_sizeOfVarint elemSize + elemSize.
+Lemma size_of_map number kf vf kt vt kc vc nn es flags :
+  size_of (CMap number kf vf kt vt kc vc) (Some (VMap nn es)) flags =
+  let n := fold_left (map_F number kf vf kc vc) es 0 in
+  if n =? 0 then proto_sizeOfTag number proto_varlen + proto_zeroSize else n.
+Proof. reflexivity. Qed.
+
+(* ================= 10. positional steps and their sequencing ================= *)
+(* a step with continuation: writes [bs] at the current offset and continues, or reports a short buffer *)
+Definition kstep (S : Z -> bytes -> (Z -> bytes -> eres) -> eres) (bs : bytes) : Prop :=
+  forall pre rest off K, off = len pre ->
+    (len bs <= len rest ->
+       S off (pre ++ rest) K = K (off + len bs) ((pre ++ bs) ++ skipn (Z.to_nat (len bs)) rest)) /\
+    (len rest < len bs -> short_res (S off (pre ++ rest) K) (pre ++ rest)).
+(* a step returning (new offset, err, buffer) *)
+Definition pstep (S : Z -> bytes -> eres) (bs : bytes) : Prop :=
+  forall pre rest off, off = len pre ->
+    (len bs <= len rest ->
+       S off (pre ++ rest) = Ok (off + len bs, None, (pre ++ bs) ++ skipn (Z.to_nat (len bs)) rest)) /\
+    (len rest < len bs -> short_res (S off (pre ++ rest)) (pre ++ rest)).
+
+Lemma short_res_len r b b2 : short_res r b -> length b = length b2 -> short_res r b2.
+Proof. intros (k & b' & E & L) H. exists k, b'. split; [assumption|congruence]. Qed.
+Lemma length_written {A} (pre bs rest : list A) :
+  len bs <= len rest -> length ((pre ++ bs) ++ skipn (Z.to_nat (len bs)) rest) = length (pre ++ rest).
+Proof.
+  intros H. apply len_eq_length. pose proof (len_nonneg bs).
+  rewrite !len_app, len_skipn by lia. lia.
+Qed.
+Lemma written_assoc {A} (pre bs1 bs2 rest : list A) :
+  ((pre ++ bs1) ++ bs2) ++ skipn (Z.to_nat (len bs2)) (skipn (Z.to_nat (len bs1)) rest) =
+  (pre ++ bs1 ++ bs2) ++ skipn (Z.to_nat (len (bs1 ++ bs2))) rest.
+Proof.
+  rewrite skipn_Z_add by apply len_nonneg. rewrite len_app. now rewrite <- (app_assoc pre bs1 bs2).
+Qed.
+
+Lemma kstep_after S2 bs2 bs1 pre rest off K X :
+  kstep S2 bs2 -> off = len pre -> len bs1 <= len rest ->
+  X = S2 (off + len bs1) ((pre ++ bs1) ++ skipn (Z.to_nat (len bs1)) rest) K ->
+  (len (bs1 ++ bs2) <= len rest ->
+     X = K (off + len (bs1 ++ bs2)) ((pre ++ bs1 ++ bs2) ++ skipn (Z.to_nat (len (bs1 ++ bs2))) rest)) /\
+  (len rest < len (bs1 ++ bs2) -> short_res X (pre ++ rest)).
+Proof.
+  intros P2 Ho H1 ->. pose proof (len_nonneg bs1).
+  destruct (P2 (pre ++ bs1) (skipn (Z.to_nat (len bs1)) rest) (off + len bs1) K) as (F & S).
+  { rewrite len_app; lia. }
+  rewrite len_skipn in F, S by lia. rewrite len_app. split; intros H2.
+  - rewrite F by lia. rewrite written_assoc, len_app. f_equal. lia.
+  - eapply short_res_len; [apply S; lia|]. now apply length_written.
+Qed.
+Lemma pstep_after S2 bs2 bs1 pre rest off X :
+  pstep S2 bs2 -> off = len pre -> len bs1 <= len rest ->
+  X = S2 (off + len bs1) ((pre ++ bs1) ++ skipn (Z.to_nat (len bs1)) rest) ->
+  (len (bs1 ++ bs2) <= len rest ->
+     X = Ok (off + len (bs1 ++ bs2), None, (pre ++ bs1 ++ bs2) ++ skipn (Z.to_nat (len (bs1 ++ bs2))) rest)) /\
+  (len rest < len (bs1 ++ bs2) -> short_res X (pre ++ rest)).
+Proof.
+  intros P2 Ho H1 ->. pose proof (len_nonneg bs1).
+  destruct (P2 (pre ++ bs1) (skipn (Z.to_nat (len bs1)) rest) (off + len bs1)) as (F & S).
+  { rewrite len_app; lia. }
+  rewrite len_skipn in F, S by lia. rewrite len_app. split; intros H2.
+  - rewrite F by lia. rewrite written_assoc, len_app. do 3 f_equal. lia.
+  - eapply short_res_len; [apply S; lia|]. now apply length_written.
+Qed.
+
+(* first step: another positional step *)
+Lemma kseq_p S1 bs1 S2 bs2 : pstep S1 bs1 -> kstep S2 bs2 ->
+  kstep (fun off b K => rlet (off', err, b') <- S1 off b in
+                        match err with Some _ => ret off' err b' | None => S2 off' b' K end) (bs1 ++ bs2).
+Proof.
+  intros P1 P2 pre rest off K Ho. destruct (P1 pre rest off Ho) as (F1 & S1').
+  pose proof (len_nonneg bs2).
+  destruct (Z_lt_le_dec (len rest) (len bs1)) as [L|L].
+  - split; intros Hx; [rewrite len_app in Hx; lia|].
+    destruct (S1' L) as (k & b' & E & Hl). rewrite E. cbn [rbind]. now apply short_res_intro.
+  - eapply kstep_after; eauto. rewrite (F1 L). reflexivity.
+Qed.
+Lemma pseq_p S1 bs1 S2 bs2 : pstep S1 bs1 -> pstep S2 bs2 ->
+  pstep (fun off b => rlet (off', err, b') <- S1 off b in
+                      match err with Some _ => Ok (off', err, b') | None => S2 off' b' end) (bs1 ++ bs2).
+Proof.
+  intros P1 P2 pre rest off Ho. destruct (P1 pre rest off Ho) as (F1 & S1').
+  pose proof (len_nonneg bs2).
+  destruct (Z_lt_le_dec (len rest) (len bs1)) as [L|L].
+  - split; intros Hx; [rewrite len_app in Hx; lia|].
+    destruct (S1' L) as (k & b' & E & Hl). rewrite E. cbn [rbind]. now apply short_res_intro.
+  - eapply pstep_after; eauto. rewrite (F1 L). reflexivity.
+Qed.
+(* first step: an exact writer through b[off:] *)
+Lemma kseq_from f n bs1 S2 bs2 : exact f n bs1 -> kstep S2 bs2 ->
+  kstep (fun off b K => rlet (n, err, b') <- in_from b off f in
+                        let off' := off + n in
+                        match err with Some _ => ret off' err b' | None => S2 off' b' K end) (bs1 ++ bs2).
+Proof.
+  intros E1 P2 pre rest off K Ho. pose proof (len_nonneg bs2). assert (Hn : len bs1 = n) by apply E1.
+  destruct (Z_lt_le_dec (len rest) (len bs1)) as [L|L].
+  - split; intros Hx; [rewrite len_app in Hx; lia|].
+    destruct (in_from_short f n bs1 pre rest off E1 Ho) as (k & b' & E & Hl); [lia|].
+    cbv beta. rewrite E. cbn [rbind]. now apply short_res_intro.
+  - eapply kstep_after; eauto. cbv beta.
+    rewrite (in_from_fits f n bs1 pre rest off E1 Ho) by lia. rewrite Hn. reflexivity.
+Qed.
+(* first step: copy of a constant *)
+Lemma kseq_copy tg S2 bs2 : kstep S2 bs2 ->
+  kstep (fun off b K => rlet (n, b') <- copy_at b off tg in
+                        let off' := off + n in
+                        if n <? len tg then ret off' (Some proto_ErrShortBuffer) b' else S2 off' b' K) (tg ++ bs2).
+Proof.
+  intros P2 pre rest off K Ho. pose proof (len_nonneg bs2).
+  destruct (Z_lt_le_dec (len rest) (len tg)) as [L|L].
+  - split; intros Hx; [rewrite len_app in Hx; lia|].
+    destruct (copy_at_short pre rest off tg Ho L) as (b' & E & Hl).
+    cbv beta. rewrite E. cbn [rbind]. destruct (len rest <? len tg) eqn:E2; [|lia]. now apply short_res_intro.
+  - eapply kstep_after; eauto. cbv beta.
+    rewrite (copy_at_fits pre rest off tg Ho L). cbn [rbind]. now rewrite Z.ltb_irrefl.
+Qed.
+Lemma pseq_copy tg (sr : bool) S2 bs2 : pstep S2 bs2 ->
+  pstep (fun off b => rlet (n, b') <- copy_at b off tg in
+                      let off' := off + n in
+                      if n <? len tg then Ok ((if sr then n else off'), Some proto_ErrShortBuffer, b') else S2 off' b') (tg ++ bs2).
+Proof.
+  intros P2 pre rest off Ho. pose proof (len_nonneg bs2).
+  destruct (Z_lt_le_dec (len rest) (len tg)) as [L|L].
+  - split; intros Hx; [rewrite len_app in Hx; lia|].
+    destruct (copy_at_short pre rest off tg Ho L) as (b' & E & Hl).
+    cbv beta. rewrite E. cbn [rbind]. destruct (len rest <? len tg) eqn:E2; [|lia]. now apply short_res_intro.
+  - eapply pstep_after; eauto. cbv beta.
+    rewrite (copy_at_fits pre rest off tg Ho L). cbn [rbind]. now rewrite Z.ltb_irrefl.
+Qed.
+
+(* last steps *)
+Lemma pstep_emb emb size : 0 <= size < lim -> pstep (emb_step emb size) (lenpfx emb size).
+Proof.
+  intros Hs pre rest off Ho. rewrite lim_val in Hs. assert (Hu : u64 size) by (unfold u64; lia).
+  unfold emb_step. rewrite (w64_small size) by (unfold u64 in Hu; lia).
+  destruct emb; cbn [lenpfx].
+  - split; intros H.
+    + rewrite (in_from_fits _ _ _ pre rest off (exact_varint size Hu) Ho H). reflexivity.
+    + destruct (in_from_short _ _ _ pre rest off (exact_varint size Hu) Ho H) as (k & b' & E & L).
+      rewrite E. cbn [rbind]. now apply short_res_intro.
+  - rewrite len_nil. split; intros H; [|pose proof (len_nonneg rest); lia].
+    cbn [Z.to_nat skipn]. now rewrite Z.add_0_r, app_nil_r.
+Qed.
+Lemma kstep_data c v fl size dbs : exact (fun w => encode c w (Some v) fl) size dbs ->
+  kstep (fun off b K => data_step c v fl size off b K) dbs.
+Proof.
+  intros E1 pre rest off K Ho. assert (Hn : len dbs = size) by apply E1.
+  unfold data_step. rewrite len_app, Hn. split; intros H.
+  - destruct (len pre + len rest - off <? size) eqn:E; [lia|].
+    rewrite (in_window_fits _ _ _ pre rest off E1 Ho H). reflexivity.
+  - destruct (len pre + len rest - off <? size) eqn:E; [|lia]. now apply short_res_intro.
+Qed.
+Lemma pstep_data c v fl size dbs : exact (fun w => encode c w (Some v) fl) size dbs ->
+  pstep (fun off b => if (len b - off) <? size then Ok (len b, Some proto_ErrShortBuffer, b) else
+                      rlet (n, err, b') <- in_window b off size (fun w => encode c w (Some v) fl) in
+                      Ok (off + n, err, b')) dbs.
+Proof.
+  intros E1 pre rest off Ho. assert (Hn : len dbs = size) by apply E1.
+  cbv beta. rewrite len_app, Hn. split; intros H.
+  - destruct (len pre + len rest - off <? size) eqn:E; [lia|].
+    rewrite (in_window_fits _ _ _ pre rest off E1 Ho H). reflexivity.
+  - destruct (len pre + len rest - off <? size) eqn:E; [|lia]. now apply short_res_intro.
+Qed.
+Lemma pstep_nop : pstep (fun off b => Ok (off, None, b)) [].
+Proof.
+  intros pre rest off Ho. rewrite len_nil. split; intros H; [|pose proof (len_nonneg rest); lia].
+  cbn [Z.to_nat skipn]. now rewrite Z.add_0_r, app_nil_r.
+Qed.
+
+(* ================= 11. the composite steps ================= *)
+Lemma kstep_elem_tail emb c v fl size dbs :
+  0 <= size < lim -> exact (fun w => encode c w (Some v) fl) size dbs ->
+  kstep (fun off b K => elem_tail emb c v fl size off b K) (lenpfx emb size ++ dbs).
+Proof.
+  intros Hs E1.
+  exact (kseq_p _ _ _ _ (pstep_emb emb size Hs) (kstep_data c v fl size dbs E1)).
+Qed.
+Lemma kstep_field f v fl size dbs :
+  1 <= sf_number f < 2 ^ 16 -> 0 <= wire (sf_codec f) < 8 ->
+  0 <= size < lim -> exact (fun w => encode (sf_codec f) w (Some v) fl) size dbs ->
+  kstep (fun off b K => field_step f v fl size off b K)
+        (varint (tag_of (sf_number f) (wire (sf_codec f))) ++ lenpfx (sf_embedded f) size ++ dbs).
+Proof.
+  intros Hn Hw Hs E1.
+  exact (kseq_from _ _ _ _ _ (exact_tag _ _ Hn Hw) (kstep_elem_tail (sf_embedded f) _ v fl size dbs Hs E1)).
+Qed.
+Lemma kstep_slice_elem tagData emb c' e dbs :
+  0 <= size_of c' (Some e) proto_wantzero < lim ->
+  exact (fun w => encode c' w (Some e) proto_wantzero) (size_of c' (Some e) proto_wantzero) dbs ->
+  kstep (fun off b K => slice_elem tagData emb c' e off b K)
+        (tagData ++ lenpfx emb (size_of c' (Some e) proto_wantzero) ++ dbs).
+Proof.
+  intros Hs E1.
+  exact (kseq_copy tagData _ _ (kstep_elem_tail emb c' e proto_wantzero _ dbs Hs E1)).
+Qed.
+Definition part_bytes (tg : bytes) (embf : bool) (psize : Z) (dbs : bytes) : bytes :=
+  if psize >? 0 then tg ++ lenpfx embf psize ++ dbs else [].
+Lemma pstep_map_part tg embf pc pv sr dbs :
+  0 <= size_of pc (Some pv) proto_wantzero < lim ->
+  exact (fun w => encode pc w (Some pv) proto_wantzero) (size_of pc (Some pv) proto_wantzero) dbs ->
+  pstep (fun off b => map_part tg embf pc pv (size_of pc (Some pv) proto_wantzero) off b sr)
+        (part_bytes tg embf (size_of pc (Some pv) proto_wantzero) dbs).
+Proof.
+  intros Hs E1. unfold map_part, part_bytes.
+  destruct (size_of pc (Some pv) proto_wantzero >? 0); [|apply pstep_nop].
+  exact (pseq_copy tg sr _ _ (pseq_p _ _ _ _ (pstep_emb embf _ Hs) (pstep_data pc pv proto_wantzero _ dbs E1))).
+Qed.
+
+(* ================= 12. loops ================= *)
+(* a step whose continuation is fixed *)
+Definition kstepK (S K : Z -> bytes -> eres) (bs : bytes) : Prop :=
+  forall pre rest off, off = len pre ->
+    (len bs <= len rest ->
+       S off (pre ++ rest) = K (off + len bs) ((pre ++ bs) ++ skipn (Z.to_nat (len bs)) rest)) /\
+    (len rest < len bs -> short_res (S off (pre ++ rest)) (pre ++ rest)).
+
+Lemma kstepK_nop K : kstepK K K [].
+Proof.
+  intros pre rest off Ho. rewrite len_nil. split; intros H; [|pose proof (len_nonneg rest); lia].
+  cbn [Z.to_nat skipn]. now rewrite Z.add_0_r, app_nil_r.
+Qed.
+Lemma kstepK_seq S1 bs1 S2 K bs2 : kstep S1 bs1 -> kstepK S2 K bs2 ->
+  kstepK (fun off b => S1 off b S2) K (bs1 ++ bs2).
+Proof.
+  intros P1 P2 pre rest off Ho. destruct (P1 pre rest off S2 Ho) as (F1 & S1').
+  pose proof (len_nonneg bs1). pose proof (len_nonneg bs2).
+  destruct (Z_lt_le_dec (len rest) (len bs1)) as [L|L].
+  - rewrite len_app. split; intros Hx; [lia|]. now apply S1'.
+  - destruct (P2 (pre ++ bs1) (skipn (Z.to_nat (len bs1)) rest) (off + len bs1)) as (F & Sh).
+    { rewrite len_app; lia. }
+    rewrite len_skipn in F, Sh by lia. cbv beta. rewrite (F1 L). rewrite len_app. split; intros H2.
+    + rewrite F by lia. rewrite written_assoc, len_app. f_equal. lia.
+    + eapply short_res_len; [apply Sh; lia|]. now apply length_written.
+Qed.
+Lemma kstepK_then_p S K bs1 bs2 : kstepK S K bs1 -> pstep K bs2 -> pstep S (bs1 ++ bs2).
+Proof.
+  intros P1 P2 pre rest off Ho. destruct (P1 pre rest off Ho) as (F1 & S1').
+  pose proof (len_nonneg bs1). pose proof (len_nonneg bs2).
+  destruct (Z_lt_le_dec (len rest) (len bs1)) as [L|L].
+  - rewrite len_app. split; intros Hx; [lia|]. now apply S1'.
+  - destruct (P2 (pre ++ bs1) (skipn (Z.to_nat (len bs1)) rest) (off + len bs1)) as (F & Sh).
+    { rewrite len_app; lia. }
+    rewrite len_skipn in F, Sh by lia. rewrite (F1 L). rewrite len_app. split; intros H2.
+    + rewrite F by lia. rewrite written_assoc, len_app. do 3 f_equal. lia.
+    + eapply short_res_len; [apply Sh; lia|]. now apply length_written.
+Qed.
+Lemma kstep_p_seq S1 bs1 S2 bs2 : kstep S1 bs1 -> pstep S2 bs2 -> pstep (fun off b => S1 off b S2) (bs1 ++ bs2).
+Proof. intros P1 P2. exact (kstepK_seq S1 bs1 S2 (fun off b => Ok (off, None, b)) bs2 P1 P2). Qed.
+Lemma pstep_exact S bs : pstep S bs -> exact (fun b => S 0 b) (len bs) bs.
+Proof.
+  intros P. split; [reflexivity|split]; intros b Hb; destruct (P [] b 0 eq_refl) as (F & Sh); cbn [app] in *.
+  - now rewrite (F Hb).
+  - now apply Sh.
+Qed.
+(* first step an exact writer whose count selects the continuation *)
+Lemma pseq_from_n f n bs1 (S2 : Z -> Z -> bytes -> eres) bs2 : exact f n bs1 -> pstep (S2 n) bs2 ->
+  pstep (fun off b => rlet (m, err, b') <- in_from b off f in
+                      let off' := off + m in
+                      match err with Some _ => ret off' err b' | None => S2 m off' b' end) (bs1 ++ bs2).
+Proof.
+  intros E1 P2 pre rest off Ho. pose proof (len_nonneg bs2). assert (Hn : len bs1 = n) by apply E1.
+  destruct (Z_lt_le_dec (len rest) (len bs1)) as [L|L].
+  - split; intros Hx; [rewrite len_app in Hx; lia|].
+    destruct (in_from_short f n bs1 pre rest off E1 Ho) as (k & b' & E & Hl); [lia|].
+    cbv beta. rewrite E. cbn [rbind]. now apply short_res_intro.
+  - eapply pstep_after; eauto. cbv beta.
+    rewrite (in_from_fits f n bs1 pre rest off E1 Ho) by lia. rewrite Hn. reflexivity.
+Qed.
+
+(* ---------- struct ---------- *)
+Definition FP (f : sfield) (v : val) : Prop :=
+  1 <= sf_number f < 2 ^ 16 /\ 0 <= wire (sf_codec f) < 8 /\
+  sf_tagsize f = proto_sizeOfTag (sf_number f) (wire (sf_codec f)) /\ 0 <= sf_flags f < 8 /\
+  forall flags, flags_ok flags ->
+    Gres (fun b => encode (sf_codec f) b (Some v) flags) (size_of (sf_codec f) (Some v) flags).
+
+Lemma pass_acc rep fs : forall vs flags n,
+  pass_ rep fs vs flags n = (fst (pass_ rep fs vs flags 0), n + snd (pass_ rep fs vs flags 0)).
+Proof.
+  induction fs as [|f fr IH]; intros [|v vr] flags n; cbn [pass_ fst snd]; try (f_equal; lia).
+  destruct (Bool.eqb (sf_repeated f) rep); [|apply IH]. cbv zeta.
+  destruct (size_of (sf_codec f) (Some v) (make_flags f flags) >? 0); [|apply IH].
+  rewrite IH. rewrite (IH vr _ (if rep then _ else _)). cbn [fst snd]. f_equal. destruct rep; lia.
+Qed.
+
+Definition field_bytes (f : sfield) (size : Z) (dbs : bytes) : bytes :=
+  varint (tag_of (sf_number f) (wire (sf_codec f))) ++ lenpfx (sf_embedded f) size ++ dbs.
+
+Lemma uniq_spec fs vs : Forall2 FP fs vs -> forall flags, flags_ok flags ->
+  let r := pass_ false fs vs flags 0 in
+  flags_ok (fst r) /\ 0 <= snd r /\
+  (snd r < lim -> exists bs, len bs = snd r /\ wfb bs = true /\
+     forall k, kstepK (fun off b => uniq_ fs vs flags off b k) (k (fst r)) bs).
+Proof.
+  induction 1 as [|f v fr vr HF HR IH]; intros flags Hfl; cbn [pass_ uniq_ fst snd].
+  - split; [assumption|split; [lia|]]. intros _. exists []. split; [reflexivity|split; [reflexivity|]]. intros k. apply kstepK_nop.
+  - destruct HF as (Hnum & Hwire & Hts & Hsfl & HG).
+    destruct (sf_repeated f); cbn [Bool.eqb]; [now apply IH|]. cbv zeta.
+    pose proof (flags_ok_make f flags Hsfl Hfl) as Hmf.
+    destruct (HG _ Hmf) as (Hs0 & Hex).
+    set (size := size_of (sf_codec f) (Some v) (make_flags f flags)) in *.
+    destruct (size >? 0) eqn:Epos; [|now apply IH].
+    rewrite pass_acc. cbn [fst snd].
+    pose proof (flags_ok_without_wz flags Hfl) as Hfl'.
+    destruct (IH _ Hfl') as (I1 & I2 & I3).
+    set (r' := pass_ false fr vr (without flags proto_wantzero) 0) in *.
+    pose proof (part_bound (sf_embedded f) size Hs0) as (Pb1 & Pb2). cbv zeta in Pb1, Pb2.
+    rewrite Hts, sizeOfTag_len by assumption.
+    pose proof (varint_len_bounds _ (tag_u64 _ _ Hnum Hwire)) as Hvt.
+    split; [assumption|split; [lia|]]. intros Hlim.
+    destruct Pb2 as (Pb2 & Pb3); [lia|].
+    destruct Hex as (dbs & Hdw & Hde); [assumption|].
+    destruct I3 as (bs' & Hl' & Hw' & Hk'); [lia|].
+    destruct (lenpfx_size (sf_embedded f) size (conj Hs0 Pb3)) as (Lp1 & Lp2 & Lp3).
+    assert (Hdl : len dbs = size) by apply Hde.
+    exists (field_bytes f size dbs ++ bs'). split; [|split].
+    + unfold field_bytes. rewrite !len_app. lia.
+    + unfold field_bytes. repeat apply wfb_app_true; auto. apply varint_wfb. now apply tag_u64.
+    + intros k.
+      exact (kstepK_seq _ _ _ _ _ (kstep_field f v _ size dbs Hnum Hwire (conj Hs0 Pb3) Hde) (Hk' k)).
+Qed.
+
+Lemma pass_true_cons f fr v vr flags n :
+  sf_repeated f = true -> 0 <= size_of (sf_codec f) (Some v) (make_flags f flags) ->
+  pass_ true (f :: fr) (v :: vr) flags n =
+  pass_ true fr vr (if size_of (sf_codec f) (Some v) (make_flags f flags) >? 0 then without flags proto_wantzero else flags)
+        (n + size_of (sf_codec f) (Some v) (make_flags f flags)).
+Proof.
+  intros Hr H0. cbn [pass_]. rewrite Hr. cbn [Bool.eqb]. cbv zeta.
+  destruct (size_of (sf_codec f) (Some v) (make_flags f flags) >? 0) eqn:E; [reflexivity|].
+  f_equal. lia.
+Qed.
+
+Lemma reps_spec fs vs : Forall2 FP fs vs -> forall flags, flags_ok flags ->
+  let r := pass_ true fs vs flags 0 in
+  0 <= snd r /\
+  (snd r < lim -> exists bs, len bs = snd r /\ wfb bs = true /\
+     pstep (fun off b => reps_ fs vs flags off b) bs).
+Proof.
+  induction 1 as [|f v fr vr HF HR IH]; intros flags Hfl.
+  - cbn [pass_ reps_ fst snd]. split; [lia|]. intros _. exists []. split; [reflexivity|split; [reflexivity|]]. apply pstep_nop.
+  - destruct HF as (Hnum & Hwire & Hts & Hsfl & HG).
+    destruct (sf_repeated f) eqn:Hrep.
+    2:{ cbn [pass_ reps_]. rewrite Hrep. cbn [Bool.eqb negb]. now apply IH. }
+    pose proof (flags_ok_make f flags Hsfl Hfl) as Hmf.
+    destruct (HG _ Hmf) as (Hs0 & Hex).
+    rewrite (pass_true_cons f fr v vr flags 0 Hrep Hs0). cbn [reps_]. rewrite Hrep. cbn [negb].
+    set (size := size_of (sf_codec f) (Some v) (make_flags f flags)) in *.
+    set (flags' := if size >? 0 then without flags proto_wantzero else flags).
+    assert (Hfl' : flags_ok flags') by (subst flags'; destruct (size >? 0); [now apply flags_ok_without_wz|assumption]).
+    rewrite pass_acc. cbn [fst snd].
+    destruct (IH _ Hfl') as (I2 & I3).
+    split; [lia|]. intros Hlim.
+    destruct Hex as (dbs & Hdw & Hde); [lia|].
+    destruct I3 as (bs' & Hl' & Hw' & Hk'); [lia|].
+    assert (Hdl : len dbs = size) by apply Hde.
+    exists (dbs ++ bs'). split; [rewrite len_app; lia|split; [now apply wfb_app_true|]].
+    exact (pseq_from_n _ size dbs
+             (fun m off b => reps_ fr vr (if m >? 0 then without flags proto_wantzero else flags) off b) bs' Hde Hk').
+Qed.
+
+Lemma G_struct inl_ fs : Forall (fun f => cok (sf_codec f) -> G (sf_codec f)) fs -> cok (CStruct inl_ fs) -> G (CStruct inl_ fs).
+Proof.
+  intros HF Hc [v|] flags Hv Hfl; [|apply G_None].
+  destruct v; cbn [ovok vok] in Hv; try contradiction. rename fs0 into vs.
+  assert (H2 : Forall2 FP fs vs).
+  { cbn [cok] in Hc. revert vs Hv Hc. induction HF as [|f fr HG HR IH]; intros [|v vr] Hv Hc; try contradiction.
+    - constructor.
+    - destruct f as [n ts fl t c]; contradiction.
+    - destruct f as [n ts fl t c]. destruct Hv as (Hv1 & Hv2). destruct Hc as ((C1 & C2 & C3 & C4) & C5).
+      constructor; [|now apply IH]. cbn [sf_codec] in HG. unfold FP; cbn [sf_number sf_codec sf_tagsize sf_flags].
+      split; [exact C1|split; [now apply cok_wire|split; [exact C2|split; [exact C3|]]]].
+      intros flags' Hf'. now apply (HG C4 (Some v)). }
+  rewrite size_of_struct.
+  change (fun b => encode (CStruct inl_ fs) b (Some (VStruct vs)) flags)
+    with (fun b => uniq_ fs vs (struct_flags0 inl_ flags) 0 b (fun flags offset b => reps_ fs vs flags offset b)).
+  pose proof (flags_ok_struct0 inl_ flags Hfl) as Hf0. fold (struct_flags0 inl_ flags) in Hf0.
+  destruct (uniq_spec fs vs H2 _ Hf0) as (U1 & U2 & U3).
+  destruct (pass_ false fs vs (struct_flags0 inl_ flags) 0) as [flags1 n1] eqn:E1. cbn [fst snd] in *.
+  rewrite pass_acc. destruct (reps_spec fs vs H2 _ U1) as (R2 & R3).
+  destruct (pass_ true fs vs flags1 0) as [flags2 n2] eqn:E2. cbn [fst snd] in *.
+  split; [lia|]. intros Hlim.
+  destruct U3 as (bs1 & L1 & W1 & K1); [lia|].
+  destruct R3 as (bs2 & L2 & W2 & K2); [lia|].
+  exists (bs1 ++ bs2). split; [now apply wfb_app_true|].
+  replace (n1 + n2) with (len (bs1 ++ bs2)) by (rewrite len_app; lia).
+  apply (pstep_exact (fun off b => uniq_ fs vs (struct_flags0 inl_ flags) off b (fun flags offset b => reps_ fs vs flags offset b))).
+  exact (kstepK_then_p _ _ _ _ (K1 _) K2).
+Qed.
+
+(* ---------- slices ---------- *)
+Lemma slice_fold_acc tagSize emb c' es : forall a,
+  fold_left (slice_F tagSize emb c') es a = a + fold_left (slice_F tagSize emb c') es 0.
+Proof.
+  induction es as [|e er IH]; intros a; cbn [fold_left]; [lia|].
+  rewrite IH, (IH (slice_F _ _ _ 0 e)). unfold slice_F. lia.
+Qed.
+
+Lemma slice_spec tagData emb c' es : wfb tagData = true ->
+  Forall (fun e => Gres (fun b => encode c' b (Some e) proto_wantzero) (size_of c' (Some e) proto_wantzero)) es ->
+  let t := fold_left (slice_F (len tagData) emb c') es 0 in
+  0 <= t /\
+  (t < lim -> exists bs, len bs = t /\ wfb bs = true /\ pstep (fun off b => slice_go tagData emb c' es off b) bs).
+Proof.
+  intros Htw. induction 1 as [|e er (Hs0 & Hex) HR IH]; cbn [fold_left slice_go].
+  - split; [lia|]. intros _. exists []. split; [reflexivity|split; [reflexivity|]]. apply pstep_nop.
+  - rewrite slice_fold_acc.
+    change (slice_F (len tagData) emb c' 0 e) with (0 + len tagData + size_of c' (Some e) proto_wantzero + (if emb then proto_sizeOfVarint (size_of c' (Some e) proto_wantzero) else 0)).
+    set (size := size_of c' (Some e) proto_wantzero) in *.
+    destruct IH as (I2 & I3). cbv zeta in I2, I3.
+    pose proof (part_bound emb size Hs0) as (Pb1 & Pb2). cbv zeta in Pb1, Pb2.
+    pose proof (len_nonneg tagData).
+    split; [lia|]. intros Hlim.
+    destruct Pb2 as (Pb2 & Pb3); [lia|].
+    destruct Hex as (dbs & Hdw & Hde); [assumption|].
+    destruct I3 as (bs' & Hl' & Hw' & Hk'); [lia|].
+    destruct (lenpfx_size emb size (conj Hs0 Pb3)) as (Lp1 & Lp2 & Lp3).
+    assert (Hdl : len dbs = size) by apply Hde.
+    exists ((tagData ++ lenpfx emb size ++ dbs) ++ bs'). split; [|split].
+    + rewrite !len_app. lia.
+    + repeat apply wfb_app_true; auto.
+    + exact (kstep_p_seq _ _ _ _ (kstep_slice_elem tagData emb c' e dbs (conj Hs0 Pb3) Hde) Hk').
+Qed.
+
+Lemma G_slice number wt emb et c' : (cok c' -> G c') -> cok (CSlice number wt emb et c') -> G (CSlice number wt emb et c').
+Proof.
+  intros HG (Hn & Hw & Hc) [v|] flags Hv Hfl; [|apply G_None].
+  destruct v; cbn [ovok vok] in Hv; try contradiction.
+  rewrite size_of_slice.
+  assert (Hchg : forall b, encode (CSlice number wt emb et c') b (Some (VSlice es)) flags =
+                           slice_go (varint (tag_of number wt)) emb c' es 0 b).
+  { intros b. rewrite encode_slice. cbv zeta. now rewrite tagData_eq. }
+  rewrite sizeOfTag_len by assumption.
+  destruct (slice_spec (varint (tag_of number wt)) emb c' es) as (S1 & S2).
+  { apply varint_wfb. now apply tag_u64. }
+  { eapply Forall_impl; [|exact Hv]. intros e He. apply (HG Hc (Some e)); [exact He|apply flags_ok_wz]. }
+  cbv zeta in S1, S2. split; [assumption|]. intros Hlim.
+  destruct (S2 Hlim) as (bs & L & W & P). exists bs. split; [assumption|].
+  eapply exact_ext; [exact Hchg|]. rewrite <- L.
+  exact (pstep_exact _ _ P).
+Qed.
+
+(* ---------- maps ---------- *)
+Definition kpart_sz (tagSize : Z) (emb : bool) (ps : Z) : Z :=
+  if ps >? 0 then tagSize + ps + (if emb then proto_sizeOfVarint ps else 0) else 0.
+
+Lemma map_esize_sz_eq kf vf kc vc ks vs :
+  map_esize_sz kf vf kc vc ks vs =
+  kpart_sz (proto_sizeOfTag 1 (wire kc)) (negb (Z.land kf proto_embedded =? 0)) ks +
+  kpart_sz (proto_sizeOfTag 2 (wire vc)) (negb (Z.land vf proto_embedded =? 0)) vs.
+Proof. unfold map_esize_sz, kpart_sz. cbv zeta. destruct (ks >? 0), (vs >? 0); lia. Qed.
+Lemma map_esize_enc_eq keyTag valTag kf vf ks vs : 0 <= ks -> 0 <= vs ->
+  map_esize_enc keyTag valTag kf vf ks vs =
+  kpart_sz (len keyTag) (negb (Z.land kf proto_embedded =? 0)) ks +
+  kpart_sz (len valTag) (negb (Z.land vf proto_embedded =? 0)) vs.
+Proof. intros. unfold map_esize_enc, kpart_sz. cbv zeta. destruct (ks >? 0) eqn:E1, (vs >? 0) eqn:E2; lia. Qed.
+
+Lemma kpart_sz_bound tagSize emb ps : 0 <= tagSize -> 0 <= ps ->
+  0 <= kpart_sz tagSize emb ps /\ (kpart_sz tagSize emb ps < lim -> ps < lim).
+Proof.
+  intros Ht Hp. unfold kpart_sz. pose proof lim_val.
+  pose proof (part_bound emb ps Hp) as (A & B). cbv zeta in A, B.
+  destruct (ps >? 0) eqn:E; [|lia]. split; [lia|]. intros. apply B. lia.
+Qed.
+Lemma part_bytes_len tg emb ps dbs : wfb tg = true -> wfb dbs = true -> 0 <= ps < lim -> len dbs = ps ->
+  len (part_bytes tg emb ps dbs) = kpart_sz (len tg) emb ps /\ wfb (part_bytes tg emb ps dbs) = true.
+Proof.
+  intros Hw1 Hw2 Hp Hl. unfold part_bytes, kpart_sz.
+  destruct (lenpfx_size emb ps Hp) as (L1 & L2 & L3).
+  destruct (ps >? 0); [|split; reflexivity]. rewrite !len_app. split; [lia|].
+  repeat apply wfb_app_true; auto.
+Qed.
+
+Lemma kstep_id : kstep (fun off b K => K off b) [].
+Proof. intros pre rest off K Ho. exact (kstepK_nop K pre rest off Ho). Qed.
+
+Lemma kstep_map_entry keyTag valTag mapTag kf vf kc vc k v kdbs vdbs :
+  let ks := size_of kc (Some k) proto_wantzero in
+  let vs := size_of vc (Some v) proto_wantzero in
+  let E := map_esize_enc keyTag valTag kf vf ks vs in
+  0 <= ks < lim -> 0 <= vs < lim -> 0 <= E < lim ->
+  exact (fun w => encode kc w (Some k) proto_wantzero) ks kdbs ->
+  exact (fun w => encode vc w (Some v) proto_wantzero) vs vdbs ->
+  kstep (fun off b K => map_entry keyTag valTag mapTag kf vf kc vc k v off b K)
+        (mapTag ++ varint E ++
+         part_bytes keyTag (negb (Z.land kf proto_embedded =? 0)) ks kdbs ++
+         part_bytes valTag (negb (Z.land vf proto_embedded =? 0)) vs vdbs ++ []).
+Proof.
+  intros ks vs E Hks Hvs HE Hke Hve. rewrite lim_val in HE.
+  assert (HuE : u64 E) by (unfold u64; lia).
+  unfold map_entry. cbv zeta. fold ks vs. fold E. rewrite (w64_small E) by (unfold u64 in HuE; lia).
+  exact (kseq_copy mapTag _ _
+          (kseq_from _ _ _ _ _ (exact_varint E HuE)
+            (kseq_p _ _ _ _ (pstep_map_part keyTag _ kc k false kdbs Hks Hke)
+              (kseq_p _ _ _ _ (pstep_map_part valTag _ vc v true vdbs Hvs Hve) kstep_id)))).
+Qed.
+
+Definition pstep_pos (S : Z -> bytes -> eres) (bs : bytes) : Prop :=
+  forall pre rest off, off = len pre -> 0 < off ->
+    (len bs <= len rest ->
+       S off (pre ++ rest) = Ok (off + len bs, None, (pre ++ bs) ++ skipn (Z.to_nat (len bs)) rest)) /\
+    (len rest < len bs -> short_res (S off (pre ++ rest)) (pre ++ rest)).
+Lemma kstep_ppos_seq S1 bs1 S2 bs2 : kstep S1 bs1 -> 0 < len bs1 -> pstep_pos S2 bs2 ->
+  pstep (fun off b => S1 off b S2) (bs1 ++ bs2).
+Proof.
+  intros P1 Hpos P2 pre rest off Ho. destruct (P1 pre rest off S2 Ho) as (F1 & S1').
+  pose proof (len_nonneg bs1). pose proof (len_nonneg bs2). pose proof (len_nonneg pre).
+  destruct (Z_lt_le_dec (len rest) (len bs1)) as [L|L].
+  - rewrite len_app. split; intros Hx; [lia|]. now apply S1'.
+  - destruct (P2 (pre ++ bs1) (skipn (Z.to_nat (len bs1)) rest) (off + len bs1)) as (F & Sh).
+    { rewrite len_app; lia. } { lia. }
+    rewrite len_skipn in F, Sh by lia. cbv beta. rewrite (F1 L). rewrite len_app. split; intros H2.
+    + rewrite F by lia. rewrite written_assoc, len_app. do 3 f_equal. lia.
+    + eapply short_res_len; [apply Sh; lia|]. now apply length_written.
+Qed.
+
+Lemma map_fold_acc number kf vf kc vc es : forall a,
+  fold_left (map_F number kf vf kc vc) es a = a + fold_left (map_F number kf vf kc vc) es 0.
+Proof.
+  induction es as [|e er IH]; intros a; cbn [fold_left]; [lia|].
+  rewrite IH, (IH (map_F _ _ _ _ _ 0 e)). unfold map_F. lia.
+Qed.
+
+Section MapLoop.
+  Variables (number kf vf : Z) (kc vc : codec).
+  Hypothesis Hnum : 1 <= number < 2 ^ 16.
+  Hypothesis Hwk : 0 <= wire kc < 8.
+  Hypothesis Hwv : 0 <= wire vc < 8.
+  Let keyTag := [tag_of 1 (wire kc)].
+  Let valTag := [tag_of 2 (wire vc)].
+  Let mapTag := varint (tag_of number proto_varlen).
+  Let zero := mapTag ++ [0].
+  Let kemb := negb (Z.land kf proto_embedded =? 0).
+  Let vemb := negb (Z.land vf proto_embedded =? 0).
+  Definition MP (kv : val * val) : Prop :=
+    Gres (fun b => encode kc b (Some (fst kv)) proto_wantzero) (size_of kc (Some (fst kv)) proto_wantzero) /\
+    Gres (fun b => encode vc b (Some (snd kv)) proto_wantzero) (size_of vc (Some (snd kv)) proto_wantzero).
+
+  Lemma varlen_range : 0 <= proto_varlen < 8.
+  Proof. cbv; split; [discriminate|reflexivity]. Qed.
+
+  (* one entry: its size is positive, and bounded size gives a continuation step *)
+  Lemma map_entry_spec k v : MP (k, v) ->
+    let e := map_F number kf vf kc vc 0 (k, v) in
+    2 <= e /\
+    (e < lim -> exists bs, len bs = e /\ wfb bs = true /\
+       kstep (fun off b K => map_entry keyTag valTag mapTag kf vf kc vc k v off b K) bs).
+  Proof.
+    intros ((Hk0 & Hkx) & (Hv0 & Hvx)). cbn [fst snd] in *.
+    unfold map_F. cbn [fst snd]. cbv zeta. rewrite map_esize_sz_eq.
+    set (ks := size_of kc (Some k) proto_wantzero) in *.
+    set (vs := size_of vc (Some v) proto_wantzero) in *.
+    destruct (entryTag_eq 1 (wire kc) ltac:(lia) Hwk) as (_ & Tk & Wk).
+    destruct (entryTag_eq 2 (wire vc) ltac:(lia) Hwv) as (_ & Tv & Wv).
+    rewrite Tk, Tv.
+    destruct (kpart_sz_bound 1 kemb ks ltac:(lia) Hk0) as (Kb1 & Kb2).
+    destruct (kpart_sz_bound 1 vemb vs ltac:(lia) Hv0) as (Vb1 & Vb2).
+    fold kemb vemb.
+    set (E := kpart_sz 1 kemb ks + kpart_sz 1 vemb vs) in *.
+    assert (HE0 : 0 <= E) by (subst E; lia).
+    pose proof (part_bound true E HE0) as (Pb1 & Pb2). cbv zeta iota in Pb1, Pb2.
+    rewrite sizeOfTag_len by (assumption || apply varlen_range).
+    pose proof (varint_len_bounds _ (tag_u64 _ _ Hnum varlen_range)) as Hmt. fold mapTag in Hmt |- *.
+    pose proof lim_val as Hlv.
+    assert (Hsov : E < 2 ^ 64 -> 1 <= proto_sizeOfVarint E).
+    { intros. rewrite sov_u64 by (unfold u64; lia). apply varint_len_bounds. unfold u64; lia. }
+    split.
+    { destruct (szv_bound E HE0) as [(A & B)|A]; lia. }
+    intros Hlim. destruct Pb2 as (Pb2 & Pb3); [lia|].
+    assert (HuE : u64 E) by (unfold u64; lia).
+    destruct Hkx as (kdbs & Wkd & Ekd); [apply Kb2; subst E; lia|].
+    destruct Hvx as (vdbs & Wvd & Evd); [apply Vb2; subst E; lia|].
+    assert (Hks : 0 <= ks < lim) by (split; [assumption|apply Kb2; subst E; lia]).
+    assert (Hvs : 0 <= vs < lim) by (split; [assumption|apply Vb2; subst E; lia]).
+    destruct (part_bytes_len keyTag kemb ks kdbs Wk Wkd Hks (proj1 Ekd)) as (Lk & Wkb).
+    destruct (part_bytes_len valTag vemb vs vdbs Wv Wvd Hvs (proj1 Evd)) as (Lv & Wvb).
+    change (len keyTag) with 1 in Lk. change (len valTag) with 1 in Lv.
+    assert (HEe : map_esize_enc keyTag valTag kf vf ks vs = E).
+    { rewrite map_esize_enc_eq by assumption. reflexivity. }
+    exists (mapTag ++ varint E ++ part_bytes keyTag kemb ks kdbs ++ part_bytes valTag vemb vs vdbs ++ []).
+    split; [|split].
+    - rewrite !len_app, len_nil, Lk, Lv, sov_u64 by assumption. subst E. lia.
+    - repeat apply wfb_app_true; auto. apply varint_wfb. now apply tag_u64; try apply varlen_range.
+      now apply varint_wfb.
+    - rewrite <- HEe. apply kstep_map_entry; try assumption. fold ks vs. rewrite HEe. lia.
+  Qed.
+
+  Lemma map_tail_spec es : Forall MP es ->
+    let t := fold_left (map_F number kf vf kc vc) es 0 in
+    0 <= t /\
+    (t < lim -> exists bs, len bs = t /\ wfb bs = true /\
+       pstep_pos (fun off b => map_go keyTag valTag zero mapTag kf vf kc vc es off b) bs).
+  Proof.
+    induction 1 as [|[k v] er HM HR IH]; cbn [fold_left map_go].
+    - split; [lia|]. intros _. exists []. split; [reflexivity|split; [reflexivity|]].
+      intros pre rest off Ho Hpos. destruct (off =? 0) eqn:E0; [lia|].
+      exact (pstep_nop pre rest off Ho).
+    - rewrite map_fold_acc. destruct IH as (I2 & I3). cbv zeta in I2, I3.
+      destruct (map_entry_spec k v HM) as (E1 & E2). cbv zeta in E1, E2.
+      split; [lia|]. intros Hlim.
+      destruct E2 as (ebs & Le & We & Ke); [lia|].
+      destruct I3 as (bs' & L' & W' & K'); [lia|].
+      exists (ebs ++ bs'). split; [rewrite len_app; lia|split; [now apply wfb_app_true|]].
+      intros pre rest off Ho Hpos.
+      exact (kstep_ppos_seq _ _ _ _ Ke ltac:(lia) K' pre rest off Ho).
+  Qed.
+
+  Lemma exact_zero_marker :
+    exact (fun b => rlet (n, b) <- copy_at b 0 zero in
+                    if n <? len zero then ret n (Some proto_ErrShortBuffer) b else ret n None b)
+          (len zero) zero.
+  Proof.
+    split; [reflexivity|split]; intros b Hb.
+    - pose proof (copy_at_fits [] b 0 zero eq_refl Hb) as Ec. cbn [app] in Ec. rewrite Ec.
+      cbn [rbind]. now rewrite Z.ltb_irrefl.
+    - destruct (copy_at_short [] b 0 zero eq_refl Hb) as (b' & Ec & L). cbn [app] in Ec, L. rewrite Ec.
+      cbn [rbind]. destruct (len b <? len zero) eqn:E; [|lia]. now apply short_res_intro.
+  Qed.
+
+  Lemma map_top_spec es : Forall MP es ->
+    let n := fold_left (map_F number kf vf kc vc) es 0 in
+    Gres (fun b => map_go keyTag valTag zero mapTag kf vf kc vc es 0 b)
+         (if n =? 0 then proto_sizeOfTag number proto_varlen + proto_zeroSize else n).
+  Proof.
+    intros HF. cbv zeta.
+    pose proof (varint_len_bounds _ (tag_u64 _ _ Hnum varlen_range)) as Hmt. fold mapTag in Hmt.
+    destruct HF as [|[k v] er HM HR].
+    - cbn [fold_left map_go Z.eqb].
+      rewrite sizeOfTag_len by (assumption || apply varlen_range). fold mapTag.
+      replace (len mapTag + proto_zeroSize) with (len zero) by (unfold zero; rewrite len_app; reflexivity).
+      eapply Gres_exact; [apply exact_zero_marker|].
+      unfold zero. apply wfb_app_true; [|reflexivity]. apply varint_wfb. now apply tag_u64; try apply varlen_range.
+    - cbn [fold_left map_go]. rewrite map_fold_acc.
+      destruct (map_tail_spec er HR) as (I2 & I3). cbv zeta in I2, I3.
+      destruct (map_entry_spec k v HM) as (E1 & E2). cbv zeta in E1, E2.
+      set (e := map_F number kf vf kc vc 0 (k, v)) in *.
+      set (t := fold_left (map_F number kf vf kc vc) er 0) in *.
+      destruct (e + t =? 0) eqn:E0; [lia|].
+      split; [lia|]. intros Hlim.
+      destruct E2 as (ebs & Le & We & Ke); [lia|].
+      destruct I3 as (bs' & L' & W' & K'); [lia|].
+      exists (ebs ++ bs'). split; [now apply wfb_app_true|].
+      replace (e + t) with (len (ebs ++ bs')) by (rewrite len_app; lia).
+      apply (pstep_exact (fun off b => map_entry keyTag valTag mapTag kf vf kc vc k v off b
+                                         (fun off b => map_go keyTag valTag zero mapTag kf vf kc vc er off b))).
+      exact (kstep_ppos_seq _ _ _ _ Ke ltac:(lia) K').
+  Qed.
+End MapLoop.
+
+Lemma G_map number kf vf kt vt kc vc : (cok kc -> G kc) -> (cok vc -> G vc) ->
+  cok (CMap number kf vf kt vt kc vc) -> G (CMap number kf vf kt vt kc vc).
+Proof.
+  intros HGk HGv (Hn & Hck & Hcv) [v|] flags Hv Hfl; [|apply G_None].
+  destruct v; cbn [ovok vok] in Hv; try contradiction.
+  pose proof (cok_wire kc Hck) as Hwk. pose proof (cok_wire vc Hcv) as Hwv.
+  rewrite size_of_map.
+  assert (Hchg : forall b, encode (CMap number kf vf kt vt kc vc) b (Some (VMap nonnil es)) flags =
+                           map_go [tag_of 1 (wire kc)] [tag_of 2 (wire vc)]
+                                  (varint (tag_of number proto_varlen) ++ [0]) (varint (tag_of number proto_varlen))
+                                  kf vf kc vc es 0 b).
+  { intros b. rewrite encode_map.
+    destruct (entryTag_eq 1 (wire kc) ltac:(lia) Hwk) as (-> & _).
+    destruct (entryTag_eq 2 (wire vc) ltac:(lia) Hwv) as (-> & _).
+    cbv zeta. rewrite zeroTag_eq by assumption.
+    replace (slice_to (varint (tag_of number proto_varlen) ++ [0]) (len (varint (tag_of number proto_varlen) ++ [0]) - 1))
+      with (varint (tag_of number proto_varlen)); [reflexivity|].
+    unfold slice_to. rewrite len_app. replace (len (varint (tag_of number proto_varlen)) + len [0] - 1) with (len (varint (tag_of number proto_varlen))) by (unfold len; cbn [length]; lia).
+    rewrite to_nat_len. now rewrite firstn_app_exact. }
+  assert (HF : Forall (MP kc vc) es).
+  { eapply Forall_impl; [|exact Hv]. intros [k x] (Hk & Hx). cbn [fst snd] in *. split.
+    - apply (HGk Hck (Some k)); [exact Hk|apply flags_ok_wz].
+    - apply (HGv Hcv (Some x)); [exact Hx|apply flags_ok_wz]. }
+  pose proof (map_top_spec number kf vf kc vc Hn Hwk Hwv es HF) as HT. cbv zeta in HT.
+  destruct HT as (T1 & T2). split; [assumption|]. intros Hlim.
+  destruct (T2 Hlim) as (bs & W & Ex). exists bs. split; [assumption|].
+  eapply exact_ext; [exact Hchg|exact Ex].
+Qed.
+
+(* ================= 13. every compatible codec/value pair is written exactly ================= *)
+Theorem G_all c : cok c -> G c.
+Proof.
+  induction c as [c IH] using codec_ind'. destruct c; cbn [sub_ok] in IH; intros Hc;
+    try exact (G_leaves CBool); try exact (G_leaves CInt); try exact (G_leaves CInt32);
+    try exact (G_leaves CInt64); try exact (G_leaves CUint); try exact (G_leaves CUint32);
+    try exact (G_leaves CUint64); try exact (G_leaves CFixed32); try exact (G_leaves CFixed64);
+    try exact (G_leaves CFloat32); try exact (G_leaves CFloat64); try exact (G_leaves CString);
+    try exact (G_leaves CBytes); try exact (G_leaves (CByteArray n)); try exact (G_leaves CMessage).
+  - (* pointer *)
+    intros [v|] flags Hv Hfl; [|apply G_None].
+    destruct v; cbn [ovok vok] in Hv; try contradiction. cbn [size_of encode].
+    apply (IH Hc o); [exact Hv|now apply flags_ok_ptr].
+  - now apply G_struct.
+  - now apply G_slice.
+  - destruct IH. now apply G_map.
+  - contradiction.
+Qed.
+
+(* ================= 14. from the universe of Spec.v to compatible pairs ================= *)
+Definition fl0_of (tg : ptag) : Z :=
+  (if tag_repeated tg then proto_repeated else 0) + (if tag_zigzag tg then proto_zigzag else 0).
+Definition forced_of (tg : ptag) (ft : gty) : option codec :=
+  if tag_wire tg =? proto_fixed32 then
+    match base_ty ft with TUint32 => Some (pointers_to ft CFixed32) | TFloat32 => Some (pointers_to ft CFloat32) | _ => None end
+  else if tag_wire tg =? proto_fixed64 then
+    match base_ty ft with TUint64 => Some (pointers_to ft CFixed64) | TFloat64 => Some (pointers_to ft CFloat64) | _ => None end
+  else None.
+Definition fc_of (fl0 num : Z) (forced : option codec) (ft : gty) : Z * codec :=
+  match forced with
+  | Some c => (fl0, c)
+  | None =>
+      match ft with
+      | TSlice et =>
+          let emb := is_struct (base_ty et) in
+          let fl1 := Z.lor (if emb then Z.lor fl0 proto_embedded else fl0) proto_repeated in
+          let ec := codec_of et in
+          (fl1, CSlice num (wire ec) emb et ec)
+      | TMap kt vt =>
+          let kf := if is_struct (base_ty kt) then proto_embedded else 0 in
+          let vf := if is_struct (base_ty vt) then proto_embedded else 0 in
+          (Z.lor fl0 (Z.lor proto_embedded proto_repeated), CMap num kf vf kt vt (codec_of kt) (codec_of vt))
+      | _ => if is_struct (base_ty ft) then (Z.lor fl0 proto_embedded, codec_of ft) else (fl0, codec_of ft)
+      end
+  end.
+Fixpoint fields_of (fs : list gfield) (number : Z) : list sfield :=
+  match fs with
+  | [] => []
+  | GField false _ _ :: r => fields_of r number
+  | GField true tag ft :: r =>
+      let num0 := w16 number in
+      let '(num, fl0, forced) :=
+        match tag with
+        | None => (num0, 0, None)
+        | Some tg => (w16 (tag_number tg), fl0_of tg, forced_of tg ft)
+        end in
+      let '(fl, c) := fc_of fl0 num forced ft in
+      SField num (w8 (proto_sizeOfTag num (wire c))) fl ft c :: fields_of r (number + 1)
+  end.
+Lemma codec_of_struct fs : codec_of (TStruct fs) = CStruct (inlined_ty (TStruct fs)) (fields_of fs 1).
+Proof. reflexivity. Qed.
+
+Definition felem_ok (ft : gty) : bool :=
+  match ft with
+  | TSlice et => elem_ok et
+  | TMap kt vt => (match kt with
+                   | TBool | TInt | TInt32 | TInt64 | TUint | TUint32 | TUint64 | TString => true
+                   | _ => false end) && elem_ok vt
+  | _ => elem_ok ft
+  end.
+Lemma elem_ok_cons e tg ft r : elem_ok (TStruct (GField e tg ft :: r)) = e && felem_ok ft && elem_ok (TStruct r).
+Proof. reflexivity. Qed.
+Lemma wf_struct_cons e tg ft r x vr :
+  wf_val (TStruct (GField e tg ft :: r)) (VStruct (x :: vr)) = wf_val ft x && wf_val (TStruct r) (VStruct vr).
+Proof. reflexivity. Qed.
+Definition nfields : list sfield -> bool :=
+  fix go (fs : list sfield) : bool :=
+    match fs with
+    | [] => true
+    | SField n _ _ _ c' :: r => (1 <=? n) && (n <? 2 ^ 16) && numbers_ok c' && go r
+    end.
+Lemma numbers_ok_struct i sfs : numbers_ok (CStruct i sfs) = distinct (map sf_number sfs) && nfields sfs.
+Proof. reflexivity. Qed.
+Lemma cok_struct_cons i n ts fl t c r :
+  cok (CStruct i (SField n ts fl t c :: r)) =
+  ((1 <= n < 2 ^ 16 /\ ts = proto_sizeOfTag n (wire c) /\ 0 <= fl < 8 /\ cok c) /\ cok (CStruct i r)).
+Proof. reflexivity. Qed.
+Lemma vok_struct_cons i n ts fl t c r x vr :
+  vok (CStruct i (SField n ts fl t c :: r)) (VStruct (x :: vr)) = (vok c x /\ vok (CStruct i r) (VStruct vr)).
+Proof. reflexivity. Qed.
+
+Fixpoint ty_size (t : gty) : nat :=
+  match t with
+  | TPtr t' => S (ty_size t')
+  | TSlice t' => S (ty_size t')
+  | TMap k v => S (ty_size k + ty_size v)%nat
+  | TStruct fs => S ((fix go (fs : list gfield) : nat :=
+                        match fs with [] => O | GField _ _ ft :: r => (ty_size ft + go r)%nat end) fs)
+  | _ => 1%nat
+  end.
+Lemma ty_size_cons e tg ft r : ty_size (TStruct (GField e tg ft :: r)) = (ty_size ft + ty_size (TStruct r))%nat.
+Proof. cbn [ty_size]. lia. Qed.
+
+Definition B (t : gty) : Prop :=
+  elem_ok t = true -> numbers_ok (codec_of t) = true ->
+  cok (codec_of t) /\ forall v, wf_val t v = true -> vok (codec_of t) v.
+
+Lemma cok_pointers_to ft c0 : cok c0 -> cok (pointers_to ft c0).
+Proof. intros H. induction ft; cbn [pointers_to cok]; auto. Qed.
+Lemma vok_pointers_to T0 c0 : (match T0 with TPtr _ => False | _ => True end) ->
+  (forall y, wf_val T0 y = true -> vok c0 y) ->
+  forall ft x, base_ty ft = T0 -> wf_val ft x = true -> vok (pointers_to ft c0) x.
+Proof.
+  intros HT H0. induction ft; intros x Hb Hw; cbn [base_ty] in Hb;
+    try (subst T0; cbn [pointers_to]; now apply H0).
+  cbn [pointers_to]. destruct x; cbn [wf_val] in Hw; try discriminate.
+  destruct o as [y|]; cbn [vok]; [|exact I]. now apply IHft.
+Qed.
+
+Ltac bool_hyps :=
+  repeat match goal with
+         | H : _ && _ = true |- _ => apply andb_prop in H; destruct H
+         end.
+
+Lemma B_scalars t :
+  match t with TPtr _ | TStruct _ | TSlice _ | TMap _ _ => True | _ => B t end.
+Proof.
+  destruct t; try exact I; intros _ _; (split; [exact I|]); intros v Hw;
+    destruct v; cbn [wf_val] in Hw; try discriminate; cbn [codec_of vok]; unfold i64, u64, u32; bool_hyps;
+    repeat split; try assumption; try lia.
+Qed.
+
+Lemma forced_cases tg ft fc : forced_of tg ft = Some fc ->
+  (base_ty ft = TUint32 /\ fc = pointers_to ft CFixed32) \/ (base_ty ft = TFloat32 /\ fc = pointers_to ft CFloat32) \/
+  (base_ty ft = TUint64 /\ fc = pointers_to ft CFixed64) \/ (base_ty ft = TFloat64 /\ fc = pointers_to ft CFloat64).
+Proof.
+  unfold forced_of. destruct (tag_wire tg =? proto_fixed32); [|destruct (tag_wire tg =? proto_fixed64)];
+    destruct (base_ty ft); intros H; inversion H; auto.
+Qed.
+
+Lemma fl0_range tg : fl0_of tg = 0 \/ fl0_of tg = 2 \/ fl0_of tg = 4 \/ fl0_of tg = 6.
+Proof. unfold fl0_of. destruct (tag_repeated tg), (tag_zigzag tg); cbv; auto. Qed.
+
+Lemma fc_of_ok fl0 num forced ft :
+  (fl0 = 0 \/ fl0 = 2 \/ fl0 = 4 \/ fl0 = 6) ->
+  (forced = None \/ exists tg, forced = forced_of tg ft) ->
+  (forall t, (ty_size t <= ty_size ft)%nat -> B t) ->
+  felem_ok ft = true -> 1 <= num < 2 ^ 16 -> numbers_ok (snd (fc_of fl0 num forced ft)) = true ->
+  0 <= fst (fc_of fl0 num forced ft) < 8 /\ cok (snd (fc_of fl0 num forced ft)) /\
+  forall x, wf_val ft x = true -> vok (snd (fc_of fl0 num forced ft)) x.
+Proof.
+  intros Hfl0 Hforced IH Hel Hnum Hno.
+  assert (Hflr : forall (b : bool), 0 <= fl0 < 8 /\ 0 <= Z.lor fl0 proto_embedded < 8 /\
+             0 <= Z.lor (if b then Z.lor fl0 proto_embedded else fl0) proto_repeated < 8 /\
+             0 <= Z.lor fl0 (Z.lor proto_embedded proto_repeated) < 8).
+  { intros b. destruct b; destruct Hfl0 as [->|[->|[->| ->]]]; cbv; repeat split; discriminate. }
+  destruct forced as [fc|].
+  - (* forced fixed-width codec *)
+    destruct Hforced as [Hx|(tg & Hx)]; [discriminate|]. symmetry in Hx.
+    cbn [fc_of fst snd]. split; [apply (Hflr true)|].
+    destruct (forced_cases tg ft fc Hx) as [(Hb & ->)|[(Hb & ->)|[(Hb & ->)|(Hb & ->)]]];
+      (split; [now apply cok_pointers_to|]); intros x Hw;
+      eapply vok_pointers_to; try eassumption; try exact I;
+      intros y Hy; destruct y; cbn [wf_val] in Hy; try discriminate; cbn [vok]; unfold u32, u64; lia.
+  - destruct ft as [ | | | | | | | | | | |n0|t'|fs0|et|kt vt| ]; cbn [fc_of fst snd] in *; cbv zeta in *;
+      try (match goal with
+           | |- context [is_struct (base_ty ?X)] =>
+               destruct (is_struct (base_ty X)); cbn [fst snd] in *;
+               (split; [destruct (Hflr true) as (A1 & A2 & _); assumption|]);
+               (apply (IH X); [lia|exact Hel|exact Hno])
+           end).
+    + (* slice *)
+      cbn [numbers_ok] in Hno. bool_hyps.
+      destruct (IH et ltac:(cbn [ty_size]; lia) Hel ltac:(assumption)) as (Hc & Hv).
+      split; [apply Hflr|]. split.
+      * cbn [cok]. split; [assumption|split; [now apply cok_wire|assumption]].
+      * intros x Hw. destruct x; cbn [wf_val] in Hw; try discriminate. cbn [vok].
+        bool_hyps. repeat match goal with H : context [len es] |- _ => clear H end. induction es as [|e er IHe]; constructor; bool_hyps; auto.
+    + (* map *)
+      cbn [numbers_ok] in Hno. unfold felem_ok in Hel. bool_hyps.
+      assert (Hk : elem_ok kt = true) by (destruct kt; try discriminate; reflexivity).
+      destruct (IH kt ltac:(cbn [ty_size]; lia) Hk ltac:(assumption)) as (Hck & Hvk).
+      destruct (IH vt ltac:(cbn [ty_size]; lia) ltac:(assumption) ltac:(assumption)) as (Hcv & Hvv).
+      split; [apply (Hflr true)|]. split.
+      * cbn [cok]. auto.
+      * intros x Hw. destruct x; cbn [wf_val] in Hw; try discriminate. cbn [vok].
+        bool_hyps. repeat match goal with H : context [len es] |- _ => clear H end. induction es as [|[k e] er IHe]; constructor; bool_hyps; cbn [fst snd]; auto.
+Qed.
+
+Lemma w8_tagsize num c : 1 <= num < 2 ^ 16 -> cok c ->
+  w8 (proto_sizeOfTag num (wire c)) = proto_sizeOfTag num (wire c).
+Proof.
+  intros Hn Hc. pose proof (cok_wire c Hc) as Hw. rewrite sizeOfTag_len by assumption.
+  pose proof (varint_len_bounds _ (tag_u64 _ _ Hn Hw)). unfold w8. apply Z.mod_small. lia.
+Qed.
+
+Lemma B_fields i fs : (forall t, (ty_size t < ty_size (TStruct fs))%nat -> B t) ->
+  forall number, elem_ok (TStruct fs) = true -> nfields (fields_of fs number) = true ->
+  cok (CStruct i (fields_of fs number)) /\
+  forall vs, wf_val (TStruct fs) (VStruct vs) = true -> vok (CStruct i (fields_of fs number)) (VStruct vs).
+Proof.
+  induction fs as [|[e tg ft] r IHr]; intros IH number Hel Hno.
+  - split; [exact I|]. intros [|x vr] Hw; [exact I|discriminate].
+  - rewrite elem_ok_cons in Hel. bool_hyps. subst e.
+    assert (IHr' : forall t, (ty_size t < ty_size (TStruct r))%nat -> B t).
+    { intros t Ht. apply IH. rewrite ty_size_cons. lia. }
+    assert (IHft : forall t, (ty_size t <= ty_size ft)%nat -> B t).
+    { intros t Ht. apply IH. rewrite ty_size_cons. cbn [ty_size]. lia. }
+    cbn [fields_of] in *. cbv zeta in *.
+    set (nff := match tg with
+                | Some tg0 => (w16 (tag_number tg0), fl0_of tg0, forced_of tg0 ft)
+                | None => (w16 number, 0, None)
+                end) in *.
+    assert (Hnff : (fst (fst nff) = w16 number \/ exists tg0, fst (fst nff) = w16 (tag_number tg0)) /\
+                   (snd (fst nff) = 0 \/ snd (fst nff) = 2 \/ snd (fst nff) = 4 \/ snd (fst nff) = 6) /\
+                   (snd nff = None \/ exists tg0, snd nff = forced_of tg0 ft)).
+    { subst nff. destruct tg as [tg0|]; cbn [fst snd].
+      - split; [right; now exists tg0|]. split; [apply fl0_range|right; now exists tg0].
+      - split; [now left|]. split; [now left|now left]. }
+    destruct nff as [[num fl0] forced]. cbn [fst snd] in Hnff. destruct Hnff as (_ & Hfl0 & Hforced).
+    pose proof (fc_of_ok fl0 num forced ft Hfl0 Hforced IHft H1) as Hfc.
+    destruct (fc_of fl0 num forced ft) as [fl c]. cbn [fst snd] in Hfc.
+    cbn [nfields] in Hno. bool_hyps.
+    assert (Hnum : 1 <= num < 2 ^ 16) by lia.
+    destruct (Hfc Hnum ltac:(assumption)) as (F1 & F2 & F3).
+    destruct (IHr IHr' (number + 1) H0 ltac:(assumption)) as (R1 & R2).
+    split.
+    + rewrite cok_struct_cons. split; [|exact R1].
+      split; [assumption|split; [now apply w8_tagsize|split; assumption]].
+    + intros [|x vr] Hw; [discriminate|]. rewrite wf_struct_cons in Hw. bool_hyps.
+      rewrite vok_struct_cons. split; [now apply F3|now apply R2].
+Qed.
+
+Lemma B_all : forall n t, (ty_size t < n)%nat -> B t.
+Proof.
+  induction n as [|n IHn]; intros t Hn; [lia|].
+  destruct t; try exact (B_scalars TBool); try exact (B_scalars TInt); try exact (B_scalars TInt32);
+    try exact (B_scalars TInt64); try exact (B_scalars TUint); try exact (B_scalars TUint32);
+    try exact (B_scalars TUint64); try exact (B_scalars TFloat32); try exact (B_scalars TFloat64);
+    try exact (B_scalars TString); try exact (B_scalars TBytes); try exact (B_scalars (TByteArray n0));
+    try exact (B_scalars TRawMessage).
+  - (* pointer *)
+    intros Hel Hno. cbn [elem_ok codec_of numbers_ok] in *.
+    destruct (IHn t ltac:(cbn [ty_size] in Hn; lia) Hel Hno) as (Hc & Hv).
+    split; [exact Hc|]. intros v Hw. destruct v; cbn [wf_val] in Hw; try discriminate.
+    destruct o as [x|]; cbn [vok]; [now apply Hv|exact I].
+  - (* struct *)
+    intros Hel Hno. rewrite codec_of_struct in *. rewrite numbers_ok_struct in Hno. bool_hyps.
+    destruct (B_fields (inlined_ty (TStruct fs)) fs) with (number := 1) as (Hc & Hv); try assumption.
+    { intros t Ht. apply IHn. lia. }
+    split; [exact Hc|]. intros v Hw. destruct v; cbn [wf_val] in Hw; try discriminate.
+    now apply Hv.
+  - intros Hel; discriminate.
+  - intros Hel; discriminate.
+Qed.
+
+Lemma bridge t v : type_ok t = true -> numbers_ok (codec_of t) = true -> wf_val t v = true ->
+  cok (codec_of t) /\ vok (codec_of t) v.
+Proof.
+  intros Ht Hn Hv. destruct (B_all (S (ty_size t)) t ltac:(lia) Ht Hn) as (Hc & Hvo). split; auto.
+Qed.
+
+(* ================= 15. the statements of Spec.v ================= *)
 Lemma encode_exact : encode_exact_statement.
-Admitted.
-Lemma marshal_never_fails : marshal_never_fails_statement.
-Admitted.
+Proof.
+  intros t v flags Ht Hn Hv Hfl c n Hlim. subst c n.
+  destruct (bridge t v Ht Hn Hv) as (Hc & Hvo).
+  destruct (G_all (codec_of t) Hc (Some v) flags Hvo Hfl) as (H0 & Hex).
+  split; [exact H0|]. destruct (Hex Hlim) as (bs & W & L & F & S).
+  exists bs. split; [exact L|split; [exact W|split; [exact F|exact S]]].
+Qed.
+
+Lemma top_flags_ok : flags_ok top_flags.
+Proof. cbv. split; [discriminate|reflexivity]. Qed.
+
 Lemma marshal_to_fits : marshal_to_fits_statement.
-Admitted.
+Proof.
+  intros t v b (Ht & Hn & Hv & Hs0 & Hlim) Hb.
+  destruct (encode_exact t v top_flags Ht Hn Hv top_flags_ok Hlim) as (_ & bs & L & W & F & S).
+  fold top_flags in Hs0, Hlim. unfold Size in *. exists bs. split.
+  - unfold Marshal. cbv zeta. destruct (size_of (codec_of t) (Some v) top_flags <? 0) eqn:E; [lia|].
+    rewrite F by (rewrite len_repeat; lia). cbn [rbind].
+    rewrite skipn_all2 by (rewrite repeat_length; lia). now rewrite app_nil_r.
+  - unfold MarshalTo. now apply F.
+Qed.
+Lemma marshal_never_fails : marshal_never_fails_statement.
+Proof.
+  intros t v Hu. pose proof Hu as (Ht & Hn & Hv & Hs0 & Hlim).
+  destruct (encode_exact t v top_flags Ht Hn Hv top_flags_ok Hlim) as (_ & bs & L & W & F & S).
+  fold top_flags in Hs0, Hlim. unfold Size in *. exists bs. split; [|exact L].
+  unfold Marshal. cbv zeta. destruct (size_of (codec_of t) (Some v) top_flags <? 0) eqn:E; [lia|].
+  rewrite F by (rewrite len_repeat; lia). cbn [rbind].
+  rewrite skipn_all2 by (rewrite repeat_length; lia). now rewrite app_nil_r.
+Qed.
 Lemma marshal_to_short : marshal_to_short_statement.
-Admitted.
+Proof.
+  intros t v b (Ht & Hn & Hv & Hs0 & Hlim) Hb.
+  destruct (encode_exact t v top_flags Ht Hn Hv top_flags_ok Hlim) as (_ & bs & L & W & F & S).
+  unfold MarshalTo, Size in *. now apply S.
+Qed.
